@@ -20,44 +20,172 @@
 //!   `&mut self` methods            -> state-passing: self -> outcome Self
 //!   `for x in e.windows(2) { .. }` -> monadic fold over `windows2`
 //!   closures                       -> fun
+//!
+//! Second and third rule sets (bitfield impls, `Decode` impls):
+//!   locals of a translated record type  -> their fields / methods resolve like `self`'s; a mutated local is
+//!                                          re-bound (`let result := set_Bitfield_bytes result .. in`)
+//!   `for` loops                         -> the fold carries exactly the variables the body mutates
+//!   `for (i, x) in v.f.iter_mut().enumerate() { *x = e }`  -> an index loop updating `v.f[i]`
+//!   `for x in it` over a translated iterator (its `next` is a target) -> `for_iter`, with a per-type
+//!                                          termination measure; running out of fuel is a `Panic`
+//!   `N::to_usize()`, `const N: usize`   -> an explicit parameter `tN : N` (type-level numbers)
+//!   `impl<T: Decode> ..`                -> dictionary passing: `T::from_ssz_bytes`, `T::is_ssz_fixed_len()`,
+//!                                          `T::ssz_fixed_len()` are parameters of the definition
+//!   `macro_rules!` with one rule and no repetitions, invoked at item level -> expanded by substitution
+//!   `match n { 0 if g => .., 1 => .., other => .. }` on integers -> an if-chain
+//!   `.expect()/.unwrap()/unwrap_or_else(|_| unreachable!())` on a Result -> `unwrap_res` (Err becomes Panic)
+//!   `o?` on an Option in a function returning Option -> `match o with None => return None`
+//!   `.iter().enumerate().rev().find(p).map(f)`, `.all(p)`, `.map(f).sum()` -> list functions
+//!   `let x = if c { .. y = e; .. } else { .. };`  -> the rest of the block is continued in each branch
+//!   `process_results(xs.map(|i| { .. }), |iter| iter.try_collect())`  -> `map_state` (the closure's captured,
+//!                                          assigned locals are threaded) then the container's `try_from_iter`
+//!   std / alloy / ruint constructors    -> named primitives of RustSem.v with their panic conditions
 //! Anything else is reported as untranslatable for that function (the definition is omitted and
 //! GenEquiv.v no longer compiles: the translation tie is then reported as broken, never silently
 //! dropped).
 use std::collections::HashMap;
 use std::fmt::Write as _;
+use quote::ToTokens as _;
 use syn::{BinOp, Block, Expr, FnArg, ImplItem, Item, Lit, Member, Pat, ReturnType, Stmt, Type, UnOp};
 
 type R<T> = Result<T, String>;
 
 struct Target {
     file: &'static str,
-    /// last path segment of the impl's self type, or "" for a free function
+    /// the impl's self type (spaces and lifetimes removed, e.g. "Bitfield<Variable<N>>"; a bare
+    /// identifier matches the last path segment), or "" for a free function
     imp: &'static str,
+    /// the trait of a trait impl ("Encode", "Decode", ..), or "" for an inherent impl / free function
+    tr: &'static str,
     name: &'static str,
     coq: &'static str,
 }
 
 const TARGETS: &[Target] = &[
-    Target { file: "ssz/src/decode.rs", imp: "", name: "sanitize_offset", coq: "sanitize_offset" },
-    Target { file: "ssz/src/decode.rs", imp: "", name: "decode_offset", coq: "decode_offset" },
-    Target { file: "ssz/src/decode.rs", imp: "", name: "read_offset", coq: "read_offset" },
-    Target { file: "ssz/src/union_selector.rs", imp: "UnionSelector", name: "new", coq: "union_selector_new" },
-    Target { file: "ssz/src/decode.rs", imp: "", name: "split_union_bytes", coq: "split_union_bytes" },
-    Target { file: "ssz/src/encode.rs", imp: "", name: "encode_length", coq: "encode_length" },
-    Target { file: "ssz/src/bitfield.rs", imp: "", name: "bytes_for_bit_len", coq: "bytes_for_bit_len" },
-    Target { file: "ssz/src/decode.rs", imp: "SszDecoderBuilder", name: "register_type_parameterized", coq: "builder_register" },
-    Target { file: "ssz/src/decode.rs", imp: "SszDecoderBuilder", name: "finalize", coq: "builder_finalize" },
-    Target { file: "ssz/src/encode.rs", imp: "SszEncoder", name: "append_parameterized", coq: "encoder_append" },
-    Target { file: "ssz/src/encode.rs", imp: "SszEncoder", name: "finalize", coq: "encoder_finalize" },
-    Target { file: "ssz/src/bitfield.rs", imp: "Bitfield", name: "len", coq: "bitfield_len" },
-    Target { file: "ssz/src/bitfield.rs", imp: "Bitfield", name: "is_empty", coq: "bitfield_is_empty" },
-    Target { file: "ssz/src/bitfield.rs", imp: "Bitfield", name: "get", coq: "bitfield_get" },
-    Target { file: "ssz/src/bitfield.rs", imp: "Bitfield", name: "set", coq: "bitfield_set" },
-    Target { file: "ssz/src/bitfield.rs", imp: "Bitfield", name: "from_raw_bytes", coq: "bitfield_from_raw_bytes" },
-    Target { file: "ssz/src/bitfield.rs", imp: "Bitfield", name: "difference_inplace", coq: "bitfield_difference_inplace" },
-    Target { file: "ssz/src/bitfield.rs", imp: "Bitfield", name: "shift_up", coq: "bitfield_shift_up" },
-    Target { file: "ssz/src/legacy.rs", imp: "", name: "encode_four_byte_union_selector", coq: "encode_four_byte_union_selector" },
-    Target { file: "ssz/src/legacy.rs", imp: "", name: "read_four_byte_union_selector", coq: "read_four_byte_union_selector" },
+    Target { file: "ssz/src/decode.rs", imp: "", tr: "", name: "sanitize_offset", coq: "sanitize_offset" },
+    Target { file: "ssz/src/decode.rs", imp: "", tr: "", name: "decode_offset", coq: "decode_offset" },
+    Target { file: "ssz/src/decode.rs", imp: "", tr: "", name: "read_offset", coq: "read_offset" },
+    Target { file: "ssz/src/union_selector.rs", imp: "UnionSelector", tr: "", name: "new", coq: "union_selector_new" },
+    Target { file: "ssz/src/decode.rs", imp: "", tr: "", name: "split_union_bytes", coq: "split_union_bytes" },
+    Target { file: "ssz/src/encode.rs", imp: "", tr: "", name: "encode_length", coq: "encode_length" },
+    Target { file: "ssz/src/bitfield.rs", imp: "", tr: "", name: "bytes_for_bit_len", coq: "bytes_for_bit_len" },
+    Target { file: "ssz/src/decode.rs", imp: "SszDecoderBuilder", tr: "", name: "register_type_parameterized", coq: "builder_register" },
+    Target { file: "ssz/src/decode.rs", imp: "SszDecoderBuilder", tr: "", name: "finalize", coq: "builder_finalize" },
+    Target { file: "ssz/src/encode.rs", imp: "SszEncoder", tr: "", name: "append_parameterized", coq: "encoder_append" },
+    Target { file: "ssz/src/encode.rs", imp: "SszEncoder", tr: "", name: "finalize", coq: "encoder_finalize" },
+    Target { file: "ssz/src/bitfield.rs", imp: "Bitfield<T>", tr: "", name: "len", coq: "bitfield_len" },
+    Target { file: "ssz/src/bitfield.rs", imp: "Bitfield<T>", tr: "", name: "is_empty", coq: "bitfield_is_empty" },
+    Target { file: "ssz/src/bitfield.rs", imp: "Bitfield<T>", tr: "", name: "get", coq: "bitfield_get" },
+    Target { file: "ssz/src/bitfield.rs", imp: "Bitfield<T>", tr: "", name: "set", coq: "bitfield_set" },
+    Target { file: "ssz/src/bitfield.rs", imp: "Bitfield<T>", tr: "", name: "from_raw_bytes", coq: "bitfield_from_raw_bytes" },
+    Target { file: "ssz/src/bitfield.rs", imp: "Bitfield<T>", tr: "", name: "difference_inplace", coq: "bitfield_difference_inplace" },
+    Target { file: "ssz/src/bitfield.rs", imp: "Bitfield<T>", tr: "", name: "shift_up", coq: "bitfield_shift_up" },
+    // the rest of the generic bitfield impl
+    Target { file: "ssz/src/bitfield.rs", imp: "Bitfield<T>", tr: "", name: "into_raw_bytes", coq: "bitfield_into_raw_bytes" },
+    Target { file: "ssz/src/bitfield.rs", imp: "Bitfield<T>", tr: "", name: "as_slice", coq: "bitfield_as_slice" },
+    Target { file: "ssz/src/bitfield.rs", imp: "Bitfield<T>", tr: "", name: "highest_set_bit", coq: "bitfield_highest_set_bit" },
+    Target { file: "ssz/src/bitfield.rs", imp: "Bitfield<T>", tr: "", name: "is_zero", coq: "bitfield_is_zero" },
+    Target { file: "ssz/src/bitfield.rs", imp: "Bitfield<T>", tr: "", name: "num_set_bits", coq: "bitfield_num_set_bits" },
+    Target { file: "ssz/src/bitfield.rs", imp: "Bitfield<T>", tr: "", name: "difference", coq: "bitfield_difference" },
+    Target { file: "ssz/src/bitfield.rs", imp: "Bitfield<T>", tr: "PartialEq", name: "eq", coq: "bitfield_eq" },
+    Target { file: "ssz/src/bitfield.rs", imp: "Bitfield<T>", tr: "", name: "iter", coq: "bitfield_iter" },
+    Target { file: "ssz/src/bitfield.rs", imp: "BitIter<T>", tr: "Iterator", name: "next", coq: "bititer_next" },
+    // BitList
+    Target { file: "ssz/src/bitfield.rs", imp: "Bitfield<Variable<N>>", tr: "", name: "with_capacity", coq: "bitlist_with_capacity" },
+    Target { file: "ssz/src/bitfield.rs", imp: "Bitfield<Variable<N>>", tr: "", name: "max_len", coq: "bitlist_max_len" },
+    Target { file: "ssz/src/bitfield.rs", imp: "Bitfield<Variable<N>>", tr: "", name: "into_bytes", coq: "bitlist_into_bytes" },
+    Target { file: "ssz/src/bitfield.rs", imp: "Bitfield<Variable<N>>", tr: "", name: "from_bytes", coq: "bitlist_from_bytes" },
+    Target { file: "ssz/src/bitfield.rs", imp: "Bitfield<Variable<N>>", tr: "", name: "intersection", coq: "bitlist_intersection" },
+    Target { file: "ssz/src/bitfield.rs", imp: "Bitfield<Variable<N>>", tr: "", name: "union", coq: "bitlist_union" },
+    Target { file: "ssz/src/bitfield.rs", imp: "Bitfield<Variable<N>>", tr: "", name: "is_subset", coq: "bitlist_is_subset" },
+    Target { file: "ssz/src/bitfield.rs", imp: "Bitfield<Variable<N>>", tr: "", name: "resize", coq: "bitlist_resize" },
+    // BitVector
+    Target { file: "ssz/src/bitfield.rs", imp: "Bitfield<Fixed<N>>", tr: "", name: "new", coq: "bitvector_new" },
+    Target { file: "ssz/src/bitfield.rs", imp: "Bitfield<Fixed<N>>", tr: "", name: "capacity", coq: "bitvector_capacity" },
+    Target { file: "ssz/src/bitfield.rs", imp: "Bitfield<Fixed<N>>", tr: "", name: "into_bytes", coq: "bitvector_into_bytes" },
+    Target { file: "ssz/src/bitfield.rs", imp: "Bitfield<Fixed<N>>", tr: "", name: "from_bytes", coq: "bitvector_from_bytes" },
+    Target { file: "ssz/src/bitfield.rs", imp: "Bitfield<Fixed<N>>", tr: "", name: "intersection", coq: "bitvector_intersection" },
+    Target { file: "ssz/src/bitfield.rs", imp: "Bitfield<Fixed<N>>", tr: "", name: "union", coq: "bitvector_union" },
+    Target { file: "ssz/src/bitfield.rs", imp: "Bitfield<Fixed<N>>", tr: "", name: "is_subset", coq: "bitvector_is_subset" },
+    // BitVectorDynamic
+    Target { file: "ssz/src/bitfield/bitvector_dynamic.rs", imp: "Bitfield<Dynamic>", tr: "", name: "new", coq: "bitdyn_new" },
+    Target { file: "ssz/src/bitfield/bitvector_dynamic.rs", imp: "Bitfield<Dynamic>", tr: "", name: "into_bytes", coq: "bitdyn_into_bytes" },
+    Target { file: "ssz/src/bitfield/bitvector_dynamic.rs", imp: "Bitfield<Dynamic>", tr: "", name: "from_bytes_with_len", coq: "bitdyn_from_bytes_with_len" },
+    Target { file: "ssz/src/bitfield/bitvector_dynamic.rs", imp: "Bitfield<Dynamic>", tr: "", name: "intersection", coq: "bitdyn_intersection" },
+    Target { file: "ssz/src/bitfield/bitvector_dynamic.rs", imp: "Bitfield<Dynamic>", tr: "", name: "union", coq: "bitdyn_union" },
+    // the SSZ codec of the three flavours
+    Target { file: "ssz/src/bitfield.rs", imp: "Bitfield<Variable<N>>", tr: "Encode", name: "is_ssz_fixed_len", coq: "bitlist_enc_is_ssz_fixed_len" },
+    Target { file: "ssz/src/bitfield.rs", imp: "Bitfield<Variable<N>>", tr: "Encode", name: "ssz_bytes_len", coq: "bitlist_ssz_bytes_len" },
+    Target { file: "ssz/src/bitfield.rs", imp: "Bitfield<Variable<N>>", tr: "Encode", name: "ssz_append", coq: "bitlist_ssz_append" },
+    Target { file: "ssz/src/bitfield.rs", imp: "Bitfield<Variable<N>>", tr: "Decode", name: "is_ssz_fixed_len", coq: "bitlist_dec_is_ssz_fixed_len" },
+    Target { file: "ssz/src/bitfield.rs", imp: "Bitfield<Variable<N>>", tr: "Decode", name: "from_ssz_bytes", coq: "bitlist_from_ssz_bytes" },
+    Target { file: "ssz/src/bitfield.rs", imp: "Bitfield<Fixed<N>>", tr: "Encode", name: "is_ssz_fixed_len", coq: "bitvector_enc_is_ssz_fixed_len" },
+    Target { file: "ssz/src/bitfield.rs", imp: "Bitfield<Fixed<N>>", tr: "Encode", name: "ssz_bytes_len", coq: "bitvector_ssz_bytes_len" },
+    Target { file: "ssz/src/bitfield.rs", imp: "Bitfield<Fixed<N>>", tr: "Encode", name: "ssz_fixed_len", coq: "bitvector_enc_ssz_fixed_len" },
+    Target { file: "ssz/src/bitfield.rs", imp: "Bitfield<Fixed<N>>", tr: "Encode", name: "ssz_append", coq: "bitvector_ssz_append" },
+    Target { file: "ssz/src/bitfield.rs", imp: "Bitfield<Fixed<N>>", tr: "Decode", name: "is_ssz_fixed_len", coq: "bitvector_dec_is_ssz_fixed_len" },
+    Target { file: "ssz/src/bitfield.rs", imp: "Bitfield<Fixed<N>>", tr: "Decode", name: "ssz_fixed_len", coq: "bitvector_dec_ssz_fixed_len" },
+    Target { file: "ssz/src/bitfield.rs", imp: "Bitfield<Fixed<N>>", tr: "Decode", name: "from_ssz_bytes", coq: "bitvector_from_ssz_bytes" },
+    Target { file: "ssz/src/bitfield/bitvector_dynamic.rs", imp: "Bitfield<Dynamic>", tr: "Encode", name: "is_ssz_fixed_len", coq: "bitdyn_enc_is_ssz_fixed_len" },
+    Target { file: "ssz/src/bitfield/bitvector_dynamic.rs", imp: "Bitfield<Dynamic>", tr: "Encode", name: "ssz_bytes_len", coq: "bitdyn_ssz_bytes_len" },
+    Target { file: "ssz/src/bitfield/bitvector_dynamic.rs", imp: "Bitfield<Dynamic>", tr: "Encode", name: "ssz_append", coq: "bitdyn_ssz_append" },
+    Target { file: "ssz/src/bitfield/bitvector_dynamic.rs", imp: "Bitfield<Dynamic>", tr: "Decode", name: "is_ssz_fixed_len", coq: "bitdyn_dec_is_ssz_fixed_len" },
+    Target { file: "ssz/src/bitfield/bitvector_dynamic.rs", imp: "Bitfield<Dynamic>", tr: "Decode", name: "from_ssz_bytes", coq: "bitdyn_from_ssz_bytes" },
+    Target { file: "ssz/src/decode/impls.rs", imp: "", tr: "", name: "decode_list_of_variable_length_items", coq: "decode_list_of_variable_length_items" },
+    // Decode impls of the leaf types and the generic wrappers (ssz/src/decode/impls.rs)
+    Target { file: "ssz/src/decode/impls.rs", imp: "u8", tr: "Decode", name: "is_ssz_fixed_len", coq: "u8_dec_is_ssz_fixed_len" },
+    Target { file: "ssz/src/decode/impls.rs", imp: "u8", tr: "Decode", name: "ssz_fixed_len", coq: "u8_dec_ssz_fixed_len" },
+    Target { file: "ssz/src/decode/impls.rs", imp: "u8", tr: "Decode", name: "from_ssz_bytes", coq: "u8_from_ssz_bytes" },
+    Target { file: "ssz/src/decode/impls.rs", imp: "u16", tr: "Decode", name: "is_ssz_fixed_len", coq: "u16_dec_is_ssz_fixed_len" },
+    Target { file: "ssz/src/decode/impls.rs", imp: "u16", tr: "Decode", name: "ssz_fixed_len", coq: "u16_dec_ssz_fixed_len" },
+    Target { file: "ssz/src/decode/impls.rs", imp: "u16", tr: "Decode", name: "from_ssz_bytes", coq: "u16_from_ssz_bytes" },
+    Target { file: "ssz/src/decode/impls.rs", imp: "u32", tr: "Decode", name: "is_ssz_fixed_len", coq: "u32_dec_is_ssz_fixed_len" },
+    Target { file: "ssz/src/decode/impls.rs", imp: "u32", tr: "Decode", name: "ssz_fixed_len", coq: "u32_dec_ssz_fixed_len" },
+    Target { file: "ssz/src/decode/impls.rs", imp: "u32", tr: "Decode", name: "from_ssz_bytes", coq: "u32_from_ssz_bytes" },
+    Target { file: "ssz/src/decode/impls.rs", imp: "u64", tr: "Decode", name: "is_ssz_fixed_len", coq: "u64_dec_is_ssz_fixed_len" },
+    Target { file: "ssz/src/decode/impls.rs", imp: "u64", tr: "Decode", name: "ssz_fixed_len", coq: "u64_dec_ssz_fixed_len" },
+    Target { file: "ssz/src/decode/impls.rs", imp: "u64", tr: "Decode", name: "from_ssz_bytes", coq: "u64_from_ssz_bytes" },
+    Target { file: "ssz/src/decode/impls.rs", imp: "u128", tr: "Decode", name: "is_ssz_fixed_len", coq: "u128_dec_is_ssz_fixed_len" },
+    Target { file: "ssz/src/decode/impls.rs", imp: "u128", tr: "Decode", name: "ssz_fixed_len", coq: "u128_dec_ssz_fixed_len" },
+    Target { file: "ssz/src/decode/impls.rs", imp: "u128", tr: "Decode", name: "from_ssz_bytes", coq: "u128_from_ssz_bytes" },
+    Target { file: "ssz/src/decode/impls.rs", imp: "usize", tr: "Decode", name: "is_ssz_fixed_len", coq: "usize_dec_is_ssz_fixed_len" },
+    Target { file: "ssz/src/decode/impls.rs", imp: "usize", tr: "Decode", name: "ssz_fixed_len", coq: "usize_dec_ssz_fixed_len" },
+    Target { file: "ssz/src/decode/impls.rs", imp: "usize", tr: "Decode", name: "from_ssz_bytes", coq: "usize_from_ssz_bytes" },
+    Target { file: "ssz/src/decode/impls.rs", imp: "bool", tr: "Decode", name: "is_ssz_fixed_len", coq: "bool_dec_is_ssz_fixed_len" },
+    Target { file: "ssz/src/decode/impls.rs", imp: "bool", tr: "Decode", name: "ssz_fixed_len", coq: "bool_dec_ssz_fixed_len" },
+    Target { file: "ssz/src/decode/impls.rs", imp: "bool", tr: "Decode", name: "from_ssz_bytes", coq: "bool_from_ssz_bytes" },
+    Target { file: "ssz/src/decode/impls.rs", imp: "NonZeroUsize", tr: "Decode", name: "is_ssz_fixed_len", coq: "nonzero_dec_is_ssz_fixed_len" },
+    Target { file: "ssz/src/decode/impls.rs", imp: "NonZeroUsize", tr: "Decode", name: "ssz_fixed_len", coq: "nonzero_dec_ssz_fixed_len" },
+    Target { file: "ssz/src/decode/impls.rs", imp: "NonZeroUsize", tr: "Decode", name: "from_ssz_bytes", coq: "nonzero_from_ssz_bytes" },
+    Target { file: "ssz/src/decode/impls.rs", imp: "Option<T>", tr: "Decode", name: "is_ssz_fixed_len", coq: "option_dec_is_ssz_fixed_len" },
+    Target { file: "ssz/src/decode/impls.rs", imp: "Option<T>", tr: "Decode", name: "from_ssz_bytes", coq: "option_from_ssz_bytes" },
+    Target { file: "ssz/src/decode/impls.rs", imp: "Arc<T>", tr: "Decode", name: "is_ssz_fixed_len", coq: "arc_dec_is_ssz_fixed_len" },
+    Target { file: "ssz/src/decode/impls.rs", imp: "Arc<T>", tr: "Decode", name: "ssz_fixed_len", coq: "arc_dec_ssz_fixed_len" },
+    Target { file: "ssz/src/decode/impls.rs", imp: "Arc<T>", tr: "Decode", name: "from_ssz_bytes", coq: "arc_from_ssz_bytes" },
+    Target { file: "ssz/src/decode/impls.rs", imp: "[u8;N]", tr: "Decode", name: "is_ssz_fixed_len", coq: "array_dec_is_ssz_fixed_len" },
+    Target { file: "ssz/src/decode/impls.rs", imp: "[u8;N]", tr: "Decode", name: "ssz_fixed_len", coq: "array_dec_ssz_fixed_len" },
+    Target { file: "ssz/src/decode/impls.rs", imp: "[u8;N]", tr: "Decode", name: "from_ssz_bytes", coq: "array_from_ssz_bytes" },
+    Target { file: "ssz/src/decode/impls.rs", imp: "Vec<T>", tr: "Decode", name: "is_ssz_fixed_len", coq: "vec_dec_is_ssz_fixed_len" },
+    Target { file: "ssz/src/decode/impls.rs", imp: "Vec<T>", tr: "Decode", name: "from_ssz_bytes", coq: "vec_from_ssz_bytes" },
+    Target { file: "ssz/src/decode/impls.rs", imp: "Address", tr: "Decode", name: "is_ssz_fixed_len", coq: "address_dec_is_ssz_fixed_len" },
+    Target { file: "ssz/src/decode/impls.rs", imp: "Address", tr: "Decode", name: "ssz_fixed_len", coq: "address_dec_ssz_fixed_len" },
+    Target { file: "ssz/src/decode/impls.rs", imp: "Address", tr: "Decode", name: "from_ssz_bytes", coq: "address_from_ssz_bytes" },
+    Target { file: "ssz/src/decode/impls.rs", imp: "FixedBytes<N>", tr: "Decode", name: "is_ssz_fixed_len", coq: "fixedbytes_dec_is_ssz_fixed_len" },
+    Target { file: "ssz/src/decode/impls.rs", imp: "FixedBytes<N>", tr: "Decode", name: "ssz_fixed_len", coq: "fixedbytes_dec_ssz_fixed_len" },
+    Target { file: "ssz/src/decode/impls.rs", imp: "FixedBytes<N>", tr: "Decode", name: "from_ssz_bytes", coq: "fixedbytes_from_ssz_bytes" },
+    Target { file: "ssz/src/decode/impls.rs", imp: "Bloom", tr: "Decode", name: "is_ssz_fixed_len", coq: "bloom_dec_is_ssz_fixed_len" },
+    Target { file: "ssz/src/decode/impls.rs", imp: "Bloom", tr: "Decode", name: "ssz_fixed_len", coq: "bloom_dec_ssz_fixed_len" },
+    Target { file: "ssz/src/decode/impls.rs", imp: "Bloom", tr: "Decode", name: "from_ssz_bytes", coq: "bloom_from_ssz_bytes" },
+    Target { file: "ssz/src/decode/impls.rs", imp: "U256", tr: "Decode", name: "is_ssz_fixed_len", coq: "u256_dec_is_ssz_fixed_len" },
+    Target { file: "ssz/src/decode/impls.rs", imp: "U256", tr: "Decode", name: "ssz_fixed_len", coq: "u256_dec_ssz_fixed_len" },
+    Target { file: "ssz/src/decode/impls.rs", imp: "U256", tr: "Decode", name: "from_ssz_bytes", coq: "u256_from_ssz_bytes" },
+    Target { file: "ssz/src/decode/impls.rs", imp: "U128", tr: "Decode", name: "is_ssz_fixed_len", coq: "alloy_u128_dec_is_ssz_fixed_len" },
+    Target { file: "ssz/src/decode/impls.rs", imp: "U128", tr: "Decode", name: "ssz_fixed_len", coq: "alloy_u128_dec_ssz_fixed_len" },
+    Target { file: "ssz/src/decode/impls.rs", imp: "U128", tr: "Decode", name: "from_ssz_bytes", coq: "alloy_u128_from_ssz_bytes" },
+    Target { file: "ssz/src/decode/impls.rs", imp: "Bytes", tr: "Decode", name: "is_ssz_fixed_len", coq: "alloy_bytes_dec_is_ssz_fixed_len" },
+    Target { file: "ssz/src/decode/impls.rs", imp: "Bytes", tr: "Decode", name: "from_ssz_bytes", coq: "alloy_bytes_from_ssz_bytes" },
+    Target { file: "ssz/src/legacy.rs", imp: "", tr: "", name: "encode_four_byte_union_selector", coq: "encode_four_byte_union_selector" },
+    Target { file: "ssz/src/legacy.rs", imp: "", tr: "", name: "read_four_byte_union_selector", coq: "read_four_byte_union_selector" },
 ];
 
 /// structs translated to records: (file, name)
@@ -66,7 +194,13 @@ const RECORDS: &[(&str, &str)] = &[
     ("ssz/src/decode.rs", "SszDecoderBuilder"),
     ("ssz/src/encode.rs", "SszEncoder"),
     ("ssz/src/bitfield.rs", "Bitfield"),
+    ("ssz/src/bitfield.rs", "BitIter"),
 ];
+
+/// termination measures for loops over translated iterators: the number of `next()` calls after which the
+/// iterator must have returned `None` (`IT` is the iterator value).  Running out of fuel is a `Panic` in
+/// the generated definition, so a measure that is too small makes the equivalence proof fail, never hold.
+const ITER_FUEL: &[(&str, &str)] = &[("BitIter", "S (N.to_nat (Bitfield_len (BitIter_bitfield IT)))")];
 
 /// integer constants translated to definitions: (file, name)
 const CONSTS: &[(&str, &str)] = &[
@@ -95,13 +229,71 @@ struct Cx {
     res_fns: HashMap<String, String>,
     /// closure-typed parameters: calling them on a buffer returns the new buffer
     fn_params: Vec<String>,
-    /// `let x = self.f.get_mut(i)..?`: x aliases self.f[i]  (variable -> (field, index term))
-    aliases: HashMap<String, (String, String)>,
+    /// `let x = v.f.get_mut(i)..?`: x aliases v.f[i]  (variable -> (v, field, index term))
+    aliases: HashMap<String, (String, String, String)>,
     /// translating an operand of a u8 bit operation: `!` is bitwise
     u8ctx: bool,
     /// "Imp::name" of translated `&mut self` methods (they return the new state)
     mut_methods: Vec<String>,
     notes: Vec<String>,
+    /// impl key of the function being translated ("Bitfield<Variable<N>>"), "" for a free function
+    cur_imp: String,
+    /// numeric type parameters in scope (`N: Unsigned`): `N::to_usize()` is the variable `tN`
+    tparams: Vec<String>,
+    /// local variables and parameters that hold a value of a translated record type
+    var_rec: HashMap<String, String>,
+    /// every translated function: "imp::name" / "imp::Trait::name" / "name"
+    fns: HashMap<String, FnInfo>,
+    /// the function returns an `Option` (so `e?` on an option returns `None`)
+    ret_option: bool,
+    /// "Record.field" -> Coq type of the field
+    field_types: HashMap<String, String>,
+    /// what `None?` returns (depends on whether the function passes a state)
+    ret_none: String,
+    /// type parameters bounded by `Decode` / `Encode`: their trait functions are parameters of the definition
+    dict_params: Vec<String>,
+    /// the dictionary members the body uses: (type parameter, member)
+    dict_used: Vec<(String, String)>,
+    /// variables standing for a fully evaluated iterator (a list)
+    list_vars: Vec<String>,
+    /// dictionary parameter -> the text of its bounds
+    dict_bounds: HashMap<String, String>,
+    /// the dictionary signature of already translated generic functions: coq name -> member names in order
+    dict_sigs: HashMap<String, Vec<String>>,
+}
+
+#[derive(Clone, Debug)]
+struct FnInfo {
+    coq: String,
+    /// numeric type parameters the Coq definition takes first (impl-level, then fn-level)
+    tparams: Vec<String>,
+    /// how many of them belong to the impl
+    n_impl: usize,
+    mut_self: bool,
+    /// the record the function returns (`Self`, `Result<Self, _>`, ..)
+    ret_rec: Option<String>,
+    imp: String,
+}
+
+/// "Bitfield<Variable<N>>" -> "Bitfield<Variable<_>>": impl keys compared up to the parameter name
+fn shape(s: &str) -> String {
+    let mut out = String::new();
+    let cs: Vec<char> = s.chars().collect();
+    let mut i = 0;
+    while i < cs.len() {
+        if cs[i] == '<' && i + 2 < cs.len() && cs[i + 1].is_ascii_uppercase() && cs[i + 2] == '>' {
+            out.push_str("<_>");
+            i += 3;
+        } else {
+            out.push(cs[i]);
+            i += 1;
+        }
+    }
+    out
+}
+
+fn base_of(imp: &str) -> String {
+    imp.split('<').next().unwrap_or("").to_string()
 }
 
 fn tokens<T: quote::ToTokens>(t: &T) -> String {
@@ -117,6 +309,47 @@ fn path_str(p: &syn::Path) -> String {
     p.segments.iter().map(|s| s.ident.to_string()).collect::<Vec<_>>().join("::")
 }
 
+/// `Bitfield::<Variable<M>>::with_capacity` -> ("with_capacity", Some("Bitfield<Variable<M>>"), ["M"]);
+/// `Self::max_len` -> ("max_len", Some("Self"), []);  `read_offset` -> ("read_offset", None, [])
+fn split_fn_path(p: &syn::Path) -> (String, Option<String>, Vec<String>) {
+    let n = p.segments.len();
+    let name = p.segments[n - 1].ident.to_string();
+    if n == 1 {
+        return (name, None, vec![]);
+    }
+    let seg = &p.segments[n - 2];
+    let mut ty = seg.ident.to_string();
+    let mut nums = vec![];
+    if let syn::PathArguments::AngleBracketed(a) = &seg.arguments {
+        let inner = a.args.to_token_stream().to_string().replace(' ', "");
+        ty = format!("{}<{}>", ty, inner);
+        // single upper-case identifiers inside the arguments are the type-level numbers
+        let cs: Vec<char> = inner.chars().collect();
+        for (i, c) in cs.iter().enumerate() {
+            let prev = if i > 0 { cs[i - 1] } else { '<' };
+            let next = if i + 1 < cs.len() { cs[i + 1] } else { '>' };
+            if c.is_ascii_uppercase() && !prev.is_alphanumeric() && !next.is_alphanumeric() {
+                nums.push(c.to_string());
+            }
+        }
+    }
+    (name, Some(ty), nums)
+}
+
+/// an iterator chain over a slice / vector (as opposed to an `Option`)
+fn is_list_chain(e: &Expr) -> bool {
+    match e {
+        Expr::Paren(p) => is_list_chain(&p.expr),
+        Expr::MethodCall(m) => {
+            let n = m.method.to_string();
+            matches!(n.as_str(), "iter" | "enumerate" | "rev" | "chunks" | "windows" | "into_iter" | "iter_mut")
+                || (matches!(n.as_str(), "map" | "filter") && is_list_chain(&m.receiver))
+        }
+        Expr::Range(_) => true,
+        _ => false,
+    }
+}
+
 fn int_lit(e: &Expr) -> Option<u128> {
     match e {
         Expr::Lit(l) => match &l.lit {
@@ -130,7 +363,8 @@ fn int_lit(e: &Expr) -> Option<u128> {
 
 impl Cx {
     fn new(records: HashMap<String, Vec<String>>, res_fns: HashMap<String, String>) -> Self {
-        Cx { fresh: 0, binds: vec![], self_rec: None, records, res_fns, fn_params: vec![], aliases: HashMap::new(), u8ctx: false, mut_methods: vec![], notes: vec![] }
+        Cx { fresh: 0, binds: vec![], self_rec: None, records, res_fns, fn_params: vec![], aliases: HashMap::new(), u8ctx: false, mut_methods: vec![], notes: vec![],
+             cur_imp: String::new(), tparams: vec![], var_rec: HashMap::new(), fns: HashMap::new(), ret_option: false, field_types: HashMap::new(), ret_none: "Ok None".to_string(), dict_params: vec![], dict_used: vec![], list_vars: vec![], dict_bounds: HashMap::new(), dict_sigs: HashMap::new() }
     }
 
     fn var(&mut self, hint: &str) -> String {
@@ -150,13 +384,138 @@ impl Cx {
         let mut out = body;
         while self.binds.len() > from {
             let (v, c) = self.binds.pop().unwrap();
-            out = format!("do {} <- {};\n{}", v, c, out);
+            if let Some(pat) = v.strip_prefix("LET:") {
+                out = format!("let {} := {} in\n{}", pat, c, out);
+            } else if let Some(x) = v.strip_prefix("OPT:") {
+                // `e?` on an Option in a function that returns an Option
+                out = format!("match {} with\n| Some {} =>\n{}\n| None =>\n{}\nend", c, x, out, self.ret_none);
+            } else {
+                out = format!("do {} <- {};\n{}", v, c, out);
+            }
         }
         out
     }
 
     fn field_proj(&self, rec: &str, f: &str) -> String {
         format!("{}_{}", rec, f)
+    }
+
+    // ---------------------------------------------------------------------------------------
+    // name resolution: which translated function does `name` mean here?
+
+    /// `ty`: the explicit self type of a path call (`Bitfield::<Variable<M>>::f`), if any.
+    fn resolve(&self, name: &str, ty: Option<&str>) -> Option<FnInfo> {
+        if let Some(ty) = ty {
+            if ty != "Self" {
+                // an explicit type: the impl of that shape, else the generic impl of its base
+                let want = shape(ty);
+                let mut hits: Vec<&FnInfo> = self.fns.iter().filter(|(k, i)| k.ends_with(&format!("::{}", name)) && shape(&i.imp) == want && k.matches("::").count() == 1).map(|(_, i)| i).collect();
+                if hits.is_empty() {
+                    let b = base_of(ty);
+                    hits = self.fns.iter().filter(|(k, i)| k.ends_with(&format!("::{}", name)) && base_of(&i.imp) == b && k.matches("::").count() == 1).map(|(_, i)| i).collect();
+                    // prefer the generic impl `Base<T>`
+                    if hits.len() > 1 {
+                        hits.retain(|i| i.imp == format!("{}<T>", b));
+                    }
+                }
+                return if hits.len() == 1 { Some(hits[0].clone()) } else { None };
+            }
+        }
+        if !self.cur_imp.is_empty() {
+            if let Some(i) = self.fns.get(&format!("{}::{}", self.cur_imp, name)) {
+                return Some(i.clone());
+            }
+            if let Some(i) = self.fns.get(&format!("{}<T>::{}", base_of(&self.cur_imp), name)) {
+                return Some(i.clone());
+            }
+        }
+        if ty.is_none() {
+            if let Some(i) = self.fns.get(name) {
+                return Some(i.clone());
+            }
+        }
+        None
+    }
+
+    /// method `name` on a value of record type `rec`
+    fn resolve_method(&self, rec: &str, name: &str) -> Option<FnInfo> {
+        if base_of(&self.cur_imp) == rec {
+            if let Some(i) = self.resolve(name, Some("Self")) {
+                return Some(i);
+            }
+        }
+        self.fns.get(&format!("{}<T>::{}", rec, name)).or_else(|| self.fns.get(&format!("{}::{}", rec, name))).cloned()
+    }
+
+    /// the Coq arguments for the callee's numeric type parameters
+    fn targs(&self, callee: &FnInfo, explicit: &[String]) -> R<Vec<String>> {
+        let mut out = vec![];
+        if !explicit.is_empty() {
+            if explicit.len() != callee.tparams.len() {
+                return Err(format!("{} takes {} type-level numbers, {} given", callee.coq, callee.tparams.len(), explicit.len()));
+            }
+            for e in explicit {
+                out.push(format!("t{}", e));
+            }
+            return Ok(out);
+        }
+        // same impl (or the generic impl, which has none): the impl's own parameters
+        for (k, _) in callee.tparams.iter().enumerate() {
+            if k < callee.n_impl {
+                let mine = self.tparams.get(k).ok_or_else(|| format!("call of {} needs a type-level number that is not in scope", callee.coq))?;
+                out.push(format!("t{}", mine));
+            } else {
+                return Err(format!("call of {} needs an explicit type-level number", callee.coq));
+            }
+        }
+        Ok(out)
+    }
+
+    /// the translated record type of an expression's value, when it is syntactically evident
+    fn rec_of_expr(&self, e: &Expr) -> Option<String> {
+        match e {
+            Expr::Paren(p) => self.rec_of_expr(&p.expr),
+            Expr::Group(p) => self.rec_of_expr(&p.expr),
+            Expr::Reference(r) => self.rec_of_expr(&r.expr),
+            Expr::Unary(u) if matches!(u.op, UnOp::Deref(_)) => self.rec_of_expr(&u.expr),
+            Expr::Try(t) => self.rec_of_expr(&t.expr),
+            Expr::Path(p) => {
+                let s = path_str(&p.path);
+                if s == "self" { self.self_rec.clone() } else { self.var_rec.get(&s).cloned() }
+            }
+            Expr::Field(f) => {
+                // a field that itself holds a record (`self.bitfield` of BitIter)
+                if let Member::Named(id) = &f.member {
+                    let owner = self.rec_of_expr(&f.base)?;
+                    return self.var_rec.get(&format!("{}.{}", owner, id)).cloned();
+                }
+                None
+            }
+            Expr::MethodCall(m) => {
+                let name = m.method.to_string();
+                let recv = self.rec_of_expr(&m.receiver)?;
+                if matches!(name.as_str(), "clone" | "expect" | "unwrap" | "unwrap_or_else" | "map_err") {
+                    return Some(recv);
+                }
+                self.resolve_method(&recv, &name).and_then(|i| i.ret_rec)
+            }
+            Expr::Call(c) => {
+                if let Expr::Path(p) = &*c.func {
+                    let (name, ty, _) = split_fn_path(&p.path);
+                    return self.resolve(&name, ty.as_deref()).and_then(|i| i.ret_rec);
+                }
+                None
+            }
+            Expr::Block(b) => match b.block.stmts.last() {
+                Some(Stmt::Expr(e, None)) => self.rec_of_expr(e),
+                _ => None,
+            },
+            Expr::Struct(s) => {
+                let name = path_last(&s.path);
+                if name == "Self" { self.self_rec.clone() } else if self.records.contains_key(&name) { Some(name) } else { None }
+            }
+            _ => None,
+        }
     }
 
     // ---------------------------------------------------------------------------------------
@@ -194,6 +553,23 @@ impl Cx {
             }
             Expr::Path(p) => {
                 let name = path_str(&p.path);
+                if p.path.segments.len() == 2 && self.dict_params.contains(&p.path.segments[0].ident.to_string()) {
+                    let ty = p.path.segments[0].ident.to_string();
+                    let member = path_last(&p.path);
+                    if member == "from_ssz_bytes" && want == Kind::Comp {
+                        if !self.dict_used.contains(&(ty.clone(), member.clone())) {
+                            self.dict_used.push((ty.clone(), member.clone()));
+                        }
+                        return Ok(format!("{}_{}", ty, member));
+                    }
+                    return Err(format!("dictionary member {} where a {} function is expected", name, if want == Kind::Comp { "fallible" } else { "pure" }));
+                }
+                if matches!(name.as_str(), "Option::Some" | "Some") {
+                    return if want == Kind::Pure { Ok("Some".into()) } else { Ok("(fun x => Ok (Some x))".into()) };
+                }
+                if matches!(name.as_str(), "Arc::new" | "Box::new") {
+                    return if want == Kind::Pure { Ok("(fun x => x)".into()) } else { Ok("(fun x => Ok x)".into()) };
+                }
                 if let Some(c) = self.res_fns.get(&name) {
                     if want == Kind::Comp { Ok(c.clone()) } else { Err(format!("{} returns a Result where a pure function is expected", name)) }
                 } else if path_last(&p.path) == "Self" || name.ends_with("Self") {
@@ -204,6 +580,71 @@ impl Cx {
             }
             _ => Err(format!("unsupported function argument: {}", tokens(e))),
         }
+    }
+
+    /// A generic callee's dictionary members.  A type parameter not given by turbofish is the caller's
+    /// parameter of the same name; a `TryFromIter` container is the impl's `Self` type.
+    fn dict_args(&mut self, coq: &str) -> R<Vec<String>> {
+        let mut all = vec![];
+        for member in self.dict_sigs.get(coq).cloned().unwrap_or_default() {
+            let (tp, mem) = member.split_once('_').map(|(a, b)| (a.to_string(), b.to_string())).unwrap_or_default();
+            if self.dict_params.contains(&tp) {
+                if !self.dict_used.contains(&(tp.clone(), mem.clone())) {
+                    self.dict_used.push((tp.clone(), mem.clone()));
+                }
+                all.push(member.clone());
+            } else if mem == "try_from_iter" {
+                all.push(format!("{}_try_from_iter", base_of(&self.cur_imp).to_lowercase()));
+            } else {
+                return Err(format!("cannot supply {} to the generic function {}", member, coq));
+            }
+        }
+        Ok(all)
+    }
+
+    /// An iterator of `Result`s consumed up to its first error: `xs.map(f)` is `mapm f xs`; when the closure
+    /// assigns captured locals it is `map_state`, and those locals are re-bound to their final values.
+    /// Returns a variable standing for the list of items.
+    fn lazy_results(&mut self, e: &Expr) -> R<String> {
+        let m = match e {
+            Expr::Paren(p) => return self.lazy_results(&p.expr),
+            Expr::MethodCall(m) if m.method == "map" && is_list_chain(&m.receiver) => m,
+            other => return Err(format!("unsupported iterator of results: {}", tokens(other))),
+        };
+        let coll = self.val(&m.receiver)?;
+        let cl = match &m.args[0] { Expr::Closure(c) => c, other => return Err(format!("unsupported mapper: {}", tokens(other))) };
+        let body_block: Block = match &*cl.body {
+            Expr::Block(b) => b.block.clone(),
+            other => Block { brace_token: Default::default(), stmts: vec![Stmt::Expr(other.clone(), None)] },
+        };
+        let mut state = self.loop_state(&body_block);
+        // locals declared inside the closure are not captured state
+        for st in &body_block.stmts {
+            if let Stmt::Local(l) = st {
+                if let Ok(n) = self.pat_name(&l.pat) {
+                    state.retain(|s| *s != n);
+                }
+            }
+        }
+        let mut names = vec![];
+        for p in &cl.inputs {
+            names.push(self.pat_name(p)?);
+        }
+        if state.is_empty() {
+            let f = self.closure1(&m.args[0], Kind::Comp)?;
+            return Ok(self.bind(format!("mapM {} {}", f, coll), "items"));
+        }
+        let st_pat = if state.len() == 1 { state[0].clone() } else { format!("'({})", state.join(", ")) };
+        let st_val = if state.len() == 1 { state[0].clone() } else { format!("({})", state.join(", ")) };
+        let from = self.binds.len();
+        let sv = st_val.clone();
+        let body = self.block(&body_block.stmts, &mut |_cx, v| Ok(format!("Ok ({}, {})", v, sv)))?;
+        let body = self.wrap(from, body);
+        let r = self.bind(format!("map_state (fun {} {} =>\n{}) {} {}", st_pat, names.join(" "), body, coll, st_val), "ms");
+        // the pair (items, final state)
+        let items = self.var("items");
+        self.binds.push((format!("LET:'({}, {})", items, st_pat.trim_start_matches('\'')), r));
+        Ok(items)
     }
 
     fn pat_name(&mut self, p: &Pat) -> R<String> {
@@ -248,6 +689,9 @@ impl Cx {
             },
             Expr::Path(p) => {
                 let s = path_str(&p.path);
+                if p.path.segments.len() == 1 && self.tparams.contains(&s) {
+                    return Ok((format!("t{}", s), Pure));
+                }
                 Ok((match s.as_str() {
                     "None" => "None".to_string(),
                     "usize::MAX" => "usize_max".to_string(),
@@ -326,6 +770,8 @@ impl Cx {
                     BinOp::Gt(_) => (format!("({} <? {})", r, l), Pure),
                     BinOp::Le(_) => (format!("({} <=? {})", l, r), Pure),
                     BinOp::Ge(_) => (format!("({} <=? {})", r, l), Pure),
+                    BinOp::Eq(_) if self.is_bytes_expr(&b.left) || self.is_bytes_expr(&b.right) => (format!("(bytes_eqb {} {})", l, r), Pure),
+                    BinOp::Ne(_) if self.is_bytes_expr(&b.left) || self.is_bytes_expr(&b.right) => (format!("(negb (bytes_eqb {} {}))", l, r), Pure),
                     BinOp::Eq(_) => (format!("({} =? {})", l, r), Pure),
                     BinOp::Ne(_) => (format!("(negb ({} =? {}))", l, r), Pure),
                     BinOp::Add(_) => (format!("usize_add {} {}", l, r), Comp),
@@ -349,6 +795,19 @@ impl Cx {
                 Ok((format!("({})", vs.join(", ")), Pure))
             }
             Expr::Try(t) => {
+                // `o?` where o is an Option and the function returns an Option: None returns None
+                if self.ret_option && matches!(&*t.expr, Expr::MethodCall(m) if m.method == "ok") {
+                    let ov = self.val(&t.expr)?;
+                    let x = self.var("x");
+                    self.binds.push((format!("OPT:{}", x), ov));
+                    return Ok((x, Pure));
+                }
+                if let Expr::Call(pc) = &*t.expr {
+                    if matches!(&*pc.func, Expr::Path(pp) if path_last(&pp.path) == "process_results") {
+                        // Result<Result<C, E1>, E2>?  with erased errors: the inner computation itself
+                        return self.expr(&t.expr);
+                    }
+                }
                 let (c, k) = self.expr(&t.expr)?;
                 if k != Comp {
                     return Err(format!("`?` applied to something that is not a Result: {}", tokens(&t.expr)));
@@ -401,7 +860,7 @@ impl Cx {
                 let a = match &r.start { Some(s) => self.val(s)?, None => "0".into() };
                 let b = match &r.end { Some(e) => self.val(e)?, None => return Err("open-ended range as a value".into()) };
                 if !matches!(r.limits, syn::RangeLimits::HalfOpen(_)) {
-                    return Err("inclusive range as a value".into());
+                    return Ok((format!("(range_incl {} {})", a, b), Pure));
                 }
                 Ok((format!("(range_up {} {})", a, b), Pure))
             }
@@ -410,6 +869,49 @@ impl Cx {
                     Expr::Path(p) => path_str(&p.path),
                     other => return Err(format!("unsupported callee: {}", tokens(other))),
                 };
+                // `<T as Decode>::f(..)`, `T::f(..)` for a dictionary parameter T;  `<Self as Decode>::f()`,
+                // `<usize as Decode>::f()`, `usize::f(..)` for a translated trait impl
+                if let Expr::Path(p) = &*c.func {
+                    let (ty, tr, name) = match &p.qself {
+                        Some(q) => (norm_type(&q.ty), if p.path.segments.len() == 2 { Some(p.path.segments[0].ident.to_string()) } else { None }, path_last(&p.path)),
+                        None if p.path.segments.len() == 2 => (p.path.segments[0].ident.to_string(), None, path_last(&p.path)),
+                        None => (String::new(), None, String::new()),
+                    };
+                    if self.dict_params.contains(&ty) {
+                        if !self.dict_used.contains(&(ty.clone(), name.clone())) {
+                            self.dict_used.push((ty.clone(), name.clone()));
+                        }
+                        let member = format!("{}_{}", ty, name);
+                        let mut args = vec![];
+                        for a in &c.args {
+                            args.push(self.val(a)?);
+                        }
+                        return Ok(match name.as_str() {
+                            "is_ssz_fixed_len" | "ssz_fixed_len" => (member, Pure),
+                            "from_ssz_bytes" | "try_from_iter" => (format!("{} {}", member, args.join(" ")), Comp),
+                            _ => return Err(format!("unsupported dictionary member {}::{}", ty, name)),
+                        });
+                    }
+                    if !ty.is_empty() && ty != "Self" || p.qself.is_some() {
+                        let want_ty = if ty == "Self" { self.cur_imp.clone() } else { ty.clone() };
+                        let hits: Vec<FnInfo> = self.fns.iter().filter(|(k, i)| i.imp == want_ty && k.ends_with(&format!("::{}", name)) && k.matches("::").count() == 2
+                            && tr.as_ref().map(|t| k.contains(&format!("::{}::", t))).unwrap_or(true)).map(|(_, i)| i.clone()).collect();
+                        if hits.len() == 1 {
+                            let mut args = self.targs(&hits[0], &[]).unwrap_or_default();
+                            for a in &c.args {
+                                args.push(self.val(a)?);
+                            }
+                            return Ok((format!("{} {}", hits[0].coq, args.join(" ")).trim_end().to_string(), Comp));
+                        }
+                    }
+                }
+                // `N::to_usize()` for a type-level number N in scope
+                if let Some(n) = f.strip_suffix("::to_usize") {
+                    if self.tparams.iter().any(|t| t == n) {
+                        return Ok((format!("t{}", n), Pure));
+                    }
+                    return Err(format!("{}::to_usize() of a type parameter that is not a type-level number in scope", n));
+                }
                 match f.as_str() {
                     "Ok" => {
                         let v = self.val(&c.args[0])?;
@@ -430,11 +932,50 @@ impl Cx {
                         let b = self.val(&c.args[1])?;
                         Ok((format!("(N.min {} {})", a, b), Pure))
                     }
-                    "u32::from_le_bytes" => {
+                    "u32::from_le_bytes" | "Self::from_le_bytes" => {
                         let a = self.val(&c.args[0])?;
                         Ok((format!("(le_val {})", a), Pure))
                     }
+                    "NonZeroUsize::new" => {
+                        let a = self.val(&c.args[0])?;
+                        Ok((format!("(nonzero_new {})", a), Pure))
+                    }
+                    // alloy `Address::from_slice` / `Bloom::from_slice`: panics unless the slice has the type's length
+                    "Self::from_slice" => {
+                        let n = match self.cur_imp.as_str() { "Address" => "20", "Bloom" => "256", other => return Err(format!("from_slice of {}: length unknown", other)) };
+                        let a = self.val(&c.args[0])?;
+                        Ok((format!("from_slice_exact {} {}", n, a), Comp))
+                    }
+                    // ruint `Uint::from_le_slice`: panics when the value does not fit the type
+                    "U256::from_le_slice" | "U128::from_le_slice" => {
+                        let n = if f.starts_with("U256") { "32" } else { "16" };
+                        let a = self.val(&c.args[0])?;
+                        Ok((format!("uint_from_le_slice {} {}", n, a), Comp))
+                    }
+                    // a tuple-struct constructor over a byte array (`FixedBytes(array)`)
+                    "Self" if c.args.len() == 1 => {
+                        let a = self.val(&c.args[0])?;
+                        Ok((a, Pure))
+                    }
                     "std::default::Default::default" | "Default::default" => Ok(("DEFAULT".into(), Pure)),
+                    "iter::empty" | "std::iter::empty" => Ok(("[]".into(), Pure)),
+                    // itertools::process_results(results, |iter| f(iter)): the items up to the first error,
+                    // handed to f (error payloads are erased, so the two Result layers are one outcome)
+                    "process_results" => {
+                        let items = self.lazy_results(&c.args[0])?;
+                        let (param, body) = match &c.args[1] {
+                            Expr::Closure(cl) if cl.inputs.len() == 1 => (self.pat_name(&cl.inputs[0])?, &*cl.body),
+                            other => return Err(format!("unsupported consumer in process_results: {}", tokens(other))),
+                        };
+                        self.list_vars.push(param.clone());
+                        let from = self.binds.len();
+                        let r = self.expr(body);
+                        self.list_vars.pop();
+                        let (b, kind) = r?;
+                        let b = if kind == Comp { b } else { format!("Ok {}", paren(&b)) };
+                        let b = self.wrap(from, b);
+                        Ok((format!("(let {} := {} in\n{})", param, items, b), Comp))
+                    }
                     _ => {
                         if self.fn_params.contains(&f) {
                             // a `Fn(&mut Vec<u8>)` parameter applied to a buffer: handled at statement level
@@ -445,7 +986,23 @@ impl Cx {
                             args.push(self.val(a)?);
                         }
                         if let Some(cn) = self.res_fns.get(&f).cloned() {
-                            Ok((format!("{} {}", cn, args.join(" ")), Comp))
+                            let mut all = self.dict_args(&cn)?;
+                            all.extend(args);
+                            Ok((format!("{} {}", cn, all.join(" ")), Comp))
+                        } else if let Expr::Path(p) = &*c.func {
+                            let (name, ty, nums) = split_fn_path(&p.path);
+                            match self.resolve(&name, ty.as_deref()) {
+                                Some(info) => {
+                                    let explicit: Vec<String> = if ty.as_deref() == Some("Self") { vec![] } else { nums };
+                                    let mut all = self.targs(&info, &explicit)?;
+                                    // a generic callee: its dictionary members.  A type parameter not given by turbofish
+                                    // is the caller's parameter of the same name; a `TryFromIter` container is `Self`.
+                                    all.extend(self.dict_args(&info.coq)?);
+                                    all.extend(args);
+                                    Ok((format!("{} {}", info.coq, all.join(" ")).trim_end().to_string(), Comp))
+                                }
+                                None => Err(format!("call of unknown function {}", f)),
+                            }
                         } else {
                             Err(format!("call of unknown function {}", f))
                         }
@@ -458,17 +1015,46 @@ impl Cx {
                 let from = self.binds.len();
                 let t = self.tail(e, &mut |_cx, v| Ok(format!("Ok {}", paren(&v))))?;
                 let _ = from;
-                Ok((t, Comp))
+                Ok((format!("({})", t), Comp))
             }
             Expr::Macro(m) => {
                 let name = path_last(&m.mac.path);
                 match name.as_str() {
                     "smallvec" | "vec" if m.mac.tokens.is_empty() => Ok(("[]".into(), Pure)),
+                    "smallvec" | "vec" => {
+                        // smallvec![x; n]
+                        let rp: syn::ExprRepeat = syn::parse2(quote::quote!([ #(m.mac.tokens.clone()) ])).or_else(|_| {
+                            let t = m.mac.tokens.clone();
+                            syn::parse2::<syn::ExprRepeat>(quote::quote!([ #t ]))
+                        }).map_err(|_| format!("unsupported {}! form: {}", name, m.mac.tokens))?;
+                        let x = self.val(&rp.expr)?;
+                        let n = self.val(&rp.len)?;
+                        Ok((format!("(repeat_n {} {})", x, n), Pure))
+                    }
                     "unreachable" | "panic" => Ok(("Panic".into(), Comp)),
                     _ => Err(format!("unsupported macro in expression position: {}!", name)),
                 }
             }
             _ => Err(format!("unsupported expression: {}", tokens(e))),
+        }
+    }
+
+    /// a field access whose field is a byte vector (`self.bytes`)
+    fn is_bytes_expr(&self, e: &Expr) -> bool {
+        match e {
+            Expr::Paren(p) => self.is_bytes_expr(&p.expr),
+            Expr::Reference(r) => self.is_bytes_expr(&r.expr),
+            Expr::Field(f) => match &f.member {
+                Member::Named(id) => {
+                    let fname = id.to_string();
+                    match self.record_of_field(&fname) {
+                        Some(rec) => self.field_types.get(&format!("{}.{}", rec, fname)).map(|t| t == "bytes").unwrap_or(false),
+                        None => false,
+                    }
+                }
+                _ => false,
+            },
+            _ => false,
         }
     }
 
@@ -498,21 +1084,90 @@ impl Cx {
             let f = self.closure1(&m.args[0], Comp)?;
             return Ok((format!("bind ({}) {}", r, f), Comp));
         }
-        // self.method(args) where the method is itself a translated target of the same impl
-        if let (Expr::Path(p), Some(rec)) = (&*m.receiver, self.self_rec.clone()) {
-            if path_str(&p.path) == "self" {
-                let key = format!("{}::{}", rec, name);
-                if let Some(cn) = self.res_fns.get(&key).cloned() {
-                    if self.mut_methods.contains(&key) {
-                        return Err(format!("call of the mutating method self.{}() outside statement position", name));
+        // a method of a translated record type (`self.len()`, `result.is_zero()`, `x.clone().into_bytes()`)
+        if let Some(rec) = self.rec_of_expr(&m.receiver) {
+            if !matches!(name.as_str(), "clone" | "expect" | "unwrap" | "unwrap_or_else" | "map_err" | "ok_or") {
+                match self.resolve_method(&rec, &name) {
+                    Some(info) => {
+                        if info.mut_self {
+                            return Err(format!("call of the mutating method .{}() outside statement position", name));
+                        }
+                        if info.n_impl > 0 && info.imp != self.cur_imp {
+                            return Err(format!("method .{}() of another impl ({})", name, info.imp));
+                        }
+                        let mut args = self.targs(&info, &[])?;
+                        args.push(self.val(&m.receiver)?);
+                        for a in &m.args {
+                            args.push(self.val(a)?);
+                        }
+                        return Ok((format!("{} {}", info.coq, args.join(" ")), Comp));
                     }
-                    let mut args = vec!["self".to_string()];
-                    for a in &m.args {
-                        args.push(self.val(a)?);
-                    }
-                    return Ok((format!("{} {}", cn, args.join(" ")), Comp));
+                    None => return Err(format!("method .{}() of the record type {} is not a translated function", name, rec)),
                 }
             }
+        }
+        // `r.map(f)` on a Result
+        if name == "map" && !is_list_chain(&m.receiver) {
+            let mark = self.binds.len();
+            let saved_fresh = self.fresh;
+            let (r, k) = self.expr(&m.receiver)?;
+            if k == Comp {
+                let f = self.closure1(&m.args[0], Pure)?;
+                return Ok((format!("omap {} ({})", f, r), Comp));
+            }
+            // not a Result: fall through to the Option / iterator cases (re-translating the receiver)
+            self.binds.truncate(mark);
+            self.fresh = saved_fresh;
+        }
+        // `iter.try_collect()` on a fully evaluated iterator: the container's `try_from_iter`
+        if name == "try_collect" {
+            if let Expr::Path(pp) = &*m.receiver {
+                let v = coq_ident(&path_str(&pp.path));
+                if self.list_vars.contains(&v) {
+                    let cont = self.dict_params.iter().find(|d| self.dict_bounds.get(*d).map(|b| b.contains("TryFromIter")).unwrap_or(false)).cloned()
+                        .ok_or("try_collect without a TryFromIter type parameter in scope")?;
+                    if !self.dict_used.contains(&(cont.clone(), "try_from_iter".to_string())) {
+                        self.dict_used.push((cont.clone(), "try_from_iter".to_string()));
+                    }
+                    return Ok((format!("{}_try_from_iter {}", cont, v), Comp));
+                }
+            }
+            return Err(format!("try_collect on something that is not an evaluated iterator: {}", tokens(m)));
+        }
+        // `xs.chunks(n).map(f).collect()` into a `Result<Vec<_>, _>`: stops at the first error
+        if name == "collect" {
+            let (r, k) = self.expr(&m.receiver)?;
+            return Ok((r, k));
+        }
+        // Result / Option adaptors whose receiver must stay a computation
+        if matches!(name.as_str(), "expect" | "unwrap" | "unwrap_or_else" | "map_err" | "ok") {
+            let (r, k) = self.expr(&m.receiver)?;
+            if name == "unwrap_or_else" {
+                // only `unwrap_or_else(|_| unreachable!(..))` / `panic!`
+                let is_panic = |p: &syn::Path| matches!(path_last(p).as_str(), "unreachable" | "panic");
+                let ok = match m.args.first() {
+                    Some(Expr::Closure(c)) => match &*c.body {
+                        Expr::Macro(mm) => is_panic(&mm.mac.path),
+                        Expr::Block(b) => match b.block.stmts.first() {
+                            Some(Stmt::Macro(mm)) => is_panic(&mm.mac.path),
+                            Some(Stmt::Expr(Expr::Macro(mm), _)) => is_panic(&mm.mac.path),
+                            _ => false,
+                        },
+                        _ => false,
+                    },
+                    _ => false,
+                };
+                if !ok {
+                    return Err(format!("unwrap_or_else with a closure that is not `|_| unreachable!()`: {}", tokens(m)));
+                }
+            }
+            return Ok(match (name.as_str(), k) {
+                ("map_err", Comp) => (r, Comp),
+                ("ok", Comp) => (format!("outcome_ok ({})", r), Comp),
+                ("expect" | "unwrap" | "unwrap_or_else", Comp) => (format!("unwrap_res ({})", r), Comp),
+                ("expect" | "unwrap", Pure) => (format!("unwrap_or_panic {}", r), Comp),
+                _ => return Err(format!("unsupported adaptor .{}() here: {}", name, tokens(m))),
+            });
         }
         let r = self.val(&m.receiver)?;
         let arg = |cx: &mut Cx, i: usize| -> R<String> { cx.val(&m.args[i]) };
@@ -529,8 +1184,17 @@ impl Cx {
                 (format!("(is_some_and {} {})", r, f), Pure)
             }
             "map" => {
-                let f = self.closure1(&m.args[0], Pure)?;
-                (format!("(option_map {} {})", f, r), Pure)
+                let list = is_list_chain(&m.receiver);
+                let mark = self.binds.len();
+                match self.closure1(&m.args[0], Pure) {
+                    Ok(f) => (if list { format!("(map {} {})", f, r) } else { format!("(option_map {} {})", f, r) }, Pure),
+                    Err(_) => {
+                        // the closure body can panic / fail: map in the outcome monad
+                        self.binds.truncate(mark);
+                        let f = self.closure1(&m.args[0], Comp)?;
+                        (if list { format!("mapM {} {}", f, r) } else { format!("opt_mapm {} {}", f, r) }, Comp)
+                    }
+                }
             }
             "filter" => {
                 let f = self.closure1(&m.args[0], Pure)?;
@@ -551,6 +1215,27 @@ impl Cx {
                 (format!("(N.compare {} {})", r, a), Pure)
             }
             "rev" => (format!("(rev {})", r), Pure),
+            "enumerate" => (format!("(enumerate_n {})", r), Pure),
+            "to_smallvec" | "into_iter" | "into" => (r, Pure),
+            "chunks" => {
+                let a = arg(self, 0)?;
+                (format!("(chunks_n {} {})", r, a), Pure)
+            }
+            "unwrap_or" => {
+                let a = arg(self, 0)?;
+                (format!("(opt_unwrap_or {} {})", r, a), Pure)
+            }
+            "find" => {
+                let f = self.closure1(&m.args[0], Pure)?;
+                (format!("(find {} {})", f, r), Pure)
+            }
+            "all" => {
+                let f = self.closure1(&m.args[0], Pure)?;
+                (format!("(forallb {} {})", f, r), Pure)
+            }
+            "sum" => (format!("usize_sum {}", r), Comp),
+            "leading_zeros" => (format!("(leading_zeros8 {})", r), Pure),
+            "count_ones" => (format!("(count_ones8 {})", r), Pure),
             "windows" => {
                 if int_lit(&m.args[0]) != Some(2) {
                     return Err("windows(n) only for n = 2".into());
@@ -573,7 +1258,6 @@ impl Cx {
                     (format!("(get_at {} {})", r, i), Pure)
                 }
             },
-            "expect" | "unwrap" => (format!("unwrap_or_panic {}", r), Comp),
             "overflowing_shr" => {
                 let a = arg(self, 0)?;
                 (format!("(overflowing_shr8 {} {}, tt)", r, a), Pure)
@@ -674,6 +1358,54 @@ impl Cx {
     fn match_tail(&mut self, m: &syn::ExprMatch, k: &mut dyn FnMut(&mut Cx, String) -> R<String>) -> R<String> {
         let from = self.binds.len();
         let scrut = self.val(&m.expr)?;
+        // a match on integer literals (with optional guards, a binding or `_` last): an if-chain
+        if m.arms.iter().any(|a| matches!(&a.pat, Pat::Lit(_))) {
+            let mut conds: Vec<(Option<String>, String)> = vec![];
+            for arm in &m.arms {
+                let (cond, bind): (Option<String>, Option<String>) = match &arm.pat {
+                    Pat::Lit(l) => match &l.lit {
+                        Lit::Int(i) => (Some(format!("({} =? {})", scrut, i.base10_digits())), None),
+                        _ => return Err(format!("unsupported literal pattern: {}", tokens(&arm.pat))),
+                    },
+                    Pat::Wild(_) => (None, None),
+                    Pat::Ident(id) => (None, Some(coq_ident(&id.ident.to_string()))),
+                    p => return Err(format!("unsupported pattern in an integer match: {}", tokens(p))),
+                };
+                let mark = self.binds.len();
+                let guard = match &arm.guard {
+                    Some((_, g)) => Some(self.val(g)?),
+                    None => None,
+                };
+                if self.binds.len() != mark {
+                    return Err("a match guard that can fail".into());
+                }
+                let cond = match (cond, guard) {
+                    (Some(c), Some(g)) => Some(format!("({} && {})", c, g)),
+                    (Some(c), None) => Some(c),
+                    (None, Some(g)) => Some(g),
+                    (None, None) => None,
+                };
+                let body = self.tail(&arm.body, k)?;
+                let body = match bind { Some(b) => format!("let {} := {} in\n{}", b, scrut, body), None => body };
+                conds.push((cond, body));
+            }
+            let mut out = String::new();
+            let mut closed = false;
+            for (c, b) in &conds {
+                match c {
+                    Some(c) => out.push_str(&format!("if {} then\n{}\nelse\n", c, b)),
+                    None => {
+                        out.push_str(b);
+                        closed = true;
+                        break;
+                    }
+                }
+            }
+            if !closed {
+                return Err("integer match without a catch-all arm".into());
+            }
+            return Ok(self.wrap(from, out));
+        }
         let mut arms = vec![];
         for arm in &m.arms {
             let pat = match &arm.pat {
@@ -737,18 +1469,50 @@ impl Cx {
                     let i = self.val(&idx)?;
                     let cur = format!("({} self)", self.field_proj(&rec, &field));
                     let v = self.bind(format!("ok_or (get_at {} {})", cur, i), "q");
-                    self.aliases.insert(name.clone(), (field, i));
+                    self.aliases.insert(name.clone(), ("self".to_string(), field, i));
                     let body = self.block(rest, k)?;
                     return Ok(self.wrap(from, format!("let {} := {} in\n{}", name, v, body)));
                 }
+                if let Expr::If(ife) = &*init.expr {
+                    let mut mutated = self.loop_state(&ife.then_branch);
+                    if let Some((_, eb)) = &ife.else_branch {
+                        if let Expr::Block(b) = &**eb {
+                            mutated.extend(self.loop_state(&b.block));
+                        }
+                    }
+                    if !mutated.is_empty() {
+                        let nm = name.clone();
+                        let mut k2 = |cx: &mut Cx, v: String| -> R<String> {
+                            let body = cx.block(rest, k)?;
+                            Ok(format!("let {} := {} in\n{}", nm, v, body))
+                        };
+                        let out = self.if_tail(ife, &mut k2)?;
+                        return Ok(self.wrap(from, out));
+                    }
+                }
+                // a local of a translated record type: remembered, so that its fields and methods resolve
+                let mut rec = self.rec_of_expr(&init.expr);
+                if rec.is_none() {
+                    if let Pat::Type(pt) = &l.pat {
+                        let t = tokens(&*pt.ty).replace(' ', "");
+                        let b = base_of(&t);
+                        if self.records.contains_key(&b) {
+                            rec = Some(b);
+                        }
+                    }
+                }
                 let v = self.val(&init.expr)?;
+                match rec {
+                    Some(r) => { self.var_rec.insert(name.clone(), r); }
+                    None => { self.var_rec.remove(&name); }
+                }
                 let body = self.block(rest, k)?;
                 format!("let {} := {} in\n{}", name, v, body)
             }
             Stmt::Expr(e, semi) => {
                 let is_mutation = matches!(e, Expr::Assign(_) | Expr::ForLoop(_))
                     || matches!(e, Expr::Binary(b) if matches!(b.op, BinOp::AddAssign(_) | BinOp::BitOrAssign(_) | BinOp::BitAndAssign(_)));
-                let is_mutation = is_mutation || self.mut_self_call(e).is_some();
+                let is_mutation = is_mutation || self.mut_self_call(e).is_some() || local_mutator(e).is_some();
                 if rest.is_empty() && semi.is_none() && !is_mutation {
                     return self.tail(e, k);
                 }
@@ -768,74 +1532,177 @@ impl Cx {
         Ok(self.wrap(from, out))
     }
 
-    /// `self.<field>` as the target of a mutation.
-    fn self_field(&self, e: &Expr) -> Option<String> {
+    /// `<var>.<field>` as the target of a mutation, for `self` or a local of record type: (var, field)
+    fn place_field(&self, e: &Expr) -> Option<(String, String)> {
         match e {
             Expr::Field(f) => match (&*f.base, &f.member) {
-                (Expr::Path(p), Member::Named(id)) if path_str(&p.path) == "self" => Some(id.to_string()),
+                (Expr::Path(p), Member::Named(id)) => {
+                    let v = path_str(&p.path);
+                    if v == "self" || self.var_rec.contains_key(&v) { Some((v, id.to_string())) } else { None }
+                }
                 _ => None,
             },
-            Expr::Reference(r) => self.self_field(&r.expr),
-            Expr::Paren(p) => self.self_field(&p.expr),
+            Expr::Reference(r) => self.place_field(&r.expr),
+            Expr::Paren(p) => self.place_field(&p.expr),
             _ => None,
         }
     }
 
-    /// `self.m(args)?` or `self.m(args).unwrap()` / `.expect(..)` with m a translated `&mut self`
-    /// method: (coq name, args, unwrapped?)
-    fn mut_self_call(&self, e: &Expr) -> Option<(String, Vec<Expr>, bool)> {
+    fn self_field(&self, e: &Expr) -> Option<String> {
+        match self.place_field(e) {
+            Some((v, f)) if v == "self" => Some(f),
+            _ => None,
+        }
+    }
+
+    fn rec_of_var(&self, v: &str) -> R<String> {
+        if v == "self" { self.self_rec.clone().ok_or_else(|| "self outside an impl".to_string()) } else { self.var_rec.get(v).cloned().ok_or_else(|| format!("{} is not of a record type", v)) }
+    }
+
+    /// `v.m(args)?`, `v.m(args).unwrap()` / `.expect(..)`, or plain `v.m(args)` with m a translated
+    /// `&mut self` method and v `self` or a local of record type: (var, callee, args, unwrapped?)
+    fn mut_call(&self, e: &Expr) -> Option<(String, FnInfo, Vec<Expr>, bool)> {
         let (inner, unwrap) = match e {
             Expr::Try(t) => (&*t.expr, false),
-            Expr::MethodCall(m) if m.method == "unwrap" || m.method == "expect" => (&*m.receiver, true),
-            _ => return None,
+            Expr::MethodCall(m) if (m.method == "unwrap" || m.method == "expect") && matches!(&*m.receiver, Expr::MethodCall(_)) => (&*m.receiver, true),
+            other => (other, false),
         };
         let m = match inner { Expr::MethodCall(m) => m, _ => return None };
-        match &*m.receiver {
-            Expr::Path(p) if path_str(&p.path) == "self" => {}
+        let var = match &*m.receiver {
+            Expr::Path(p) => path_str(&p.path),
             _ => return None,
-        }
-        let key = format!("{}::{}", self.self_rec.clone()?, m.method);
-        if !self.mut_methods.contains(&key) {
+        };
+        let rec = self.rec_of_var(&var).ok()?;
+        let info = self.resolve_method(&rec, &m.method.to_string())?;
+        if !info.mut_self {
             return None;
         }
-        Some((self.res_fns.get(&key)?.clone(), m.args.iter().cloned().collect(), unwrap))
+        Some((var, info, m.args.iter().cloned().collect(), unwrap))
+    }
+
+    fn mut_self_call(&self, e: &Expr) -> Option<(String, Vec<Expr>, bool)> {
+        self.mut_call(e).map(|(_, i, a, u)| (i.coq, a, u))
+    }
+
+    fn set_place(&self, var: &str, field: &str, v: &str) -> R<String> {
+        let rec = self.rec_of_var(var)?;
+        Ok(format!("set_{}_{} {} {}", rec, field, var, paren(v)))
     }
 
     fn set_self(&self, field: &str, v: &str) -> R<String> {
-        let rec = self.self_rec.clone().ok_or("mutation of self outside an impl")?;
-        Ok(format!("set_{}_{} self {}", rec, field, paren(v)))
+        self.set_place("self", field, v)
+    }
+
+    /// the variables a loop body mutates (they are the state the fold carries), in a fixed order
+    fn loop_state(&self, body: &Block) -> Vec<String> {
+        struct V<'a> { cx: &'a Cx, out: Vec<String> }
+        fn root(e: &Expr) -> Option<String> {
+            match e {
+                Expr::Path(p) => Some(path_str(&p.path)),
+                Expr::Field(f) => root(&f.base),
+                Expr::Index(i) => root(&i.expr),
+                Expr::Paren(p) => root(&p.expr),
+                Expr::Reference(r) => root(&r.expr),
+                Expr::Unary(u) => root(&u.expr),
+                _ => None,
+            }
+        }
+        impl<'a> V<'a> {
+            fn add(&mut self, v: Option<String>) {
+                if let Some(v) = v {
+                    let v = match self.cx.aliases.get(&v) { Some((var, _, _)) => var.clone(), None => v };
+                    if !self.out.contains(&v) {
+                        self.out.push(v);
+                    }
+                }
+            }
+        }
+        impl<'a, 'ast> syn::visit::Visit<'ast> for V<'a> {
+            fn visit_expr_assign(&mut self, a: &'ast syn::ExprAssign) {
+                self.add(root(&a.left));
+                syn::visit::visit_expr_assign(self, a);
+            }
+            fn visit_expr_binary(&mut self, b: &'ast syn::ExprBinary) {
+                if matches!(b.op, BinOp::AddAssign(_) | BinOp::SubAssign(_) | BinOp::BitOrAssign(_) | BinOp::BitAndAssign(_)) {
+                    self.add(root(&b.left));
+                }
+                syn::visit::visit_expr_binary(self, b);
+            }
+            fn visit_expr_method_call(&mut self, m: &'ast syn::ExprMethodCall) {
+                let name = m.method.to_string();
+                let is_mut = matches!(name.as_str(), "push" | "extend_from_slice" | "resize" | "truncate" | "append")
+                    || match root(&m.receiver) {
+                        Some(v) => match self.cx.rec_of_var(&v) {
+                            Ok(rec) => matches!(&*m.receiver, Expr::Path(_)) && self.cx.resolve_method(&rec, &name).map(|i| i.mut_self).unwrap_or(false),
+                            Err(_) => false,
+                        },
+                        None => false,
+                    };
+                if is_mut {
+                    self.add(root(&m.receiver));
+                }
+                syn::visit::visit_expr_method_call(self, m);
+            }
+        }
+        let mut v = V { cx: self, out: vec![] };
+        syn::visit::Visit::visit_block(&mut v, body);
+        v.out
     }
 
     fn stmt_expr(&mut self, e: &Expr, rest: &[Stmt], k: &mut dyn FnMut(&mut Cx, String) -> R<String>) -> R<String> {
         match e {
-            // self.f = e;     self.f[i] = e;
+            // v.f = e;     v.f[i] = e;     *x = e  (x an alias of v.f[i])
             Expr::Assign(a) => {
-                if let Some(f) = self.self_field(&a.left) {
+                if let Some((var, f)) = self.place_field(&a.left) {
                     let v = self.val(&a.right)?;
-                    let upd = self.set_self(&f, &v)?;
+                    let upd = self.set_place(&var, &f, &v)?;
                     let body = self.block(rest, k)?;
-                    return Ok(format!("let self := {} in\n{}", upd, body));
+                    return Ok(format!("let {} := {} in\n{}", var, upd, body));
                 }
                 if let Expr::Index(ix) = &*a.left {
-                    if let Some(f) = self.self_field(&ix.expr) {
+                    if let Some((var, f)) = self.place_field(&ix.expr) {
                         let i = self.val(&ix.index)?;
-                        let v = self.val(&a.right)?;
-                        let rec = self.self_rec.clone().unwrap();
-                        let cur = format!("({} self)", self.field_proj(&rec, &f));
+                        let saved = self.u8ctx;
+                        let v = self.val(&a.right);
+                        self.u8ctx = saved;
+                        let v = v?;
+                        let rec = self.rec_of_var(&var)?;
+                        let cur = format!("({} {})", self.field_proj(&rec, &f), var);
                         let nv = self.bind(format!("set_at {} {} {}", cur, i, paren(&v)), "upd");
-                        let upd = self.set_self(&f, &nv)?;
+                        let upd = self.set_place(&var, &f, &nv)?;
                         let body = self.block(rest, k)?;
-                        return Ok(format!("let self := {} in\n{}", upd, body));
+                        return Ok(format!("let {} := {} in\n{}", var, upd, body));
+                    }
+                }
+                if let Expr::Path(lp) = &*a.left {
+                    if lp.path.segments.len() == 1 {
+                        let var = coq_ident(&path_str(&lp.path));
+                        let v = self.val(&a.right)?;
+                        let body = self.block(rest, k)?;
+                        return Ok(format!("let {} := {} in\n{}", var, v, body));
+                    }
+                }
+                if let Expr::Unary(u) = &*a.left {
+                    if let (UnOp::Deref(_), Expr::Path(p)) = (&u.op, &*u.expr) {
+                        let target = path_last(&p.path);
+                        if let Some((var, field, idx)) = self.aliases.get(&target).cloned() {
+                            let v = self.val(&a.right)?;
+                            let rec = self.rec_of_var(&var)?;
+                            let cur = format!("({} {})", self.field_proj(&rec, &field), var);
+                            let upd = self.set_place(&var, &field, &format!("upd_at {} {} {}", cur, idx, paren(&v)))?;
+                            let body = self.block(rest, k)?;
+                            return Ok(format!("let {} := {} in\n{}", var, upd, body));
+                        }
                     }
                 }
                 Err(format!("unsupported assignment: {}", tokens(e)))
             }
-            // self.f[i] &= e;   self.f[i] |= e;
+            // v.f[i] &= e;   v.f[i] |= e;
             Expr::Binary(b) if matches!(b.op, BinOp::BitOrAssign(_) | BinOp::BitAndAssign(_)) && matches!(&*b.left, Expr::Index(_)) => {
                 let ix = match &*b.left { Expr::Index(ix) => ix, _ => unreachable!() };
-                let f = self.self_field(&ix.expr).ok_or_else(|| format!("unsupported compound assignment target: {}", tokens(e)))?;
-                let rec = self.self_rec.clone().unwrap();
-                let cur = format!("({} self)", self.field_proj(&rec, &f));
+                let (var, f) = self.place_field(&ix.expr).ok_or_else(|| format!("unsupported compound assignment target: {}", tokens(e)))?;
+                let rec = self.rec_of_var(&var)?;
+                let cur = format!("({} {})", self.field_proj(&rec, &f), var);
                 let i = self.val(&ix.index)?;
                 let old = self.bind(format!("index_at {} {}", cur, i), "t");
                 let saved = self.u8ctx;
@@ -845,23 +1712,44 @@ impl Cx {
                 let r = r?;
                 let op = if matches!(b.op, BinOp::BitOrAssign(_)) { "N.lor" } else { "N.land" };
                 let nv = self.bind(format!("set_at {} {} ({} {} {})", cur, i, op, old, r), "upd");
-                let upd = self.set_self(&f, &nv)?;
+                let upd = self.set_place(&var, &f, &nv)?;
                 let body = self.block(rest, k)?;
-                Ok(format!("let self := {} in\n{}", upd, body))
+                Ok(format!("let {} := {} in\n{}", var, upd, body))
             }
-            // self.m(args)?;   self.m(args).unwrap();   for a translated `&mut self` method m
-            Expr::Try(_) | Expr::MethodCall(_) if self.mut_self_call(e).is_some() => {
-                let (cn, args, unwrap) = self.mut_self_call(e).unwrap();
-                let mut avs = vec!["self".to_string()];
+            // v.m(args)?;   v.m(args).unwrap();   v.m(args);   for a translated `&mut self` method m
+            Expr::Try(_) | Expr::MethodCall(_) if self.mut_call(e).is_some() => {
+                let (var, info, args, unwrap) = self.mut_call(e).unwrap();
+                if info.n_impl > 0 && info.imp != self.cur_imp {
+                    return Err(format!("mutating method of another impl ({})", info.imp));
+                }
+                let mut avs = self.targs(&info, &[])?;
+                avs.push(var.clone());
                 for a in &args {
                     avs.push(self.val(a)?);
                 }
-                let call = format!("{} {}", cn, avs.join(" "));
+                let call = format!("{} {}", info.coq, avs.join(" "));
                 let st = self.bind(if unwrap { format!("unwrap_res ({})", call) } else { call }, "st");
                 let body = self.block(rest, k)?;
-                Ok(format!("let self := {} in\n{}", st, body))
+                Ok(format!("let {} := {} in\n{}", var, st, body))
             }
-            // *x |= e;  *x &= e;   where x aliases self.f[i]
+            // v.resize(n, x);  v.truncate(n);  v.extend_from_slice(x);  v.push(x);   on a plain local
+            Expr::MethodCall(m) if local_mutator(e).is_some() && self.place_field(&m.receiver).is_none() => {
+                let (var, name) = local_mutator(e).unwrap();
+                let var = coq_ident(&var);
+                let a0 = self.val(&m.args[0])?;
+                let nv = match name.as_str() {
+                    "resize" => {
+                        let a1 = self.val(&m.args[1])?;
+                        format!("resize_n {} {} {}", var, a0, a1)
+                    }
+                    "truncate" => format!("truncate_n {} {}", var, a0),
+                    "extend_from_slice" => format!("{} ++ {}", var, a0),
+                    _ => format!("{} ++ [{}]", var, a0),
+                };
+                let body = self.block(rest, k)?;
+                Ok(format!("let {} := {} in\n{}", var, nv, body))
+            }
+            // *x |= e;  *x &= e;   where x aliases v.f[i]
             Expr::Binary(b) if matches!(b.op, BinOp::BitOrAssign(_) | BinOp::BitAndAssign(_)) => {
                 let target = match &*b.left {
                     Expr::Unary(u) if matches!(u.op, UnOp::Deref(_)) => match &*u.expr {
@@ -870,18 +1758,18 @@ impl Cx {
                     },
                     _ => return Err(format!("unsupported compound assignment target: {}", tokens(e))),
                 };
-                let (field, idx) = self.aliases.get(&target).cloned().ok_or_else(|| format!("{} is not a known alias of an element of self", target))?;
+                let (var, field, idx) = self.aliases.get(&target).cloned().ok_or_else(|| format!("{} is not a known alias of an element of self", target))?;
                 let saved = self.u8ctx;
                 self.u8ctx = true;
                 let r = self.val(&b.right);
                 self.u8ctx = saved;
                 let r = r?;
                 let op = if matches!(b.op, BinOp::BitOrAssign(_)) { "N.lor" } else { "N.land" };
-                let rec = self.self_rec.clone().unwrap();
-                let cur = format!("({} self)", self.field_proj(&rec, &field));
-                let upd = self.set_self(&field, &format!("upd_at {} {} ({} {} {})", cur, idx, op, coq_ident(&target), r))?;
+                let rec = self.rec_of_var(&var)?;
+                let cur = format!("({} {})", self.field_proj(&rec, &field), var);
+                let upd = self.set_place(&var, &field, &format!("upd_at {} {} ({} {} {})", cur, idx, op, coq_ident(&target), r))?;
                 let body = self.block(rest, k)?;
-                Ok(format!("let self := {} in\n{}", upd, body))
+                Ok(format!("let {} := {} in\n{}", var, upd, body))
             }
             // self.f += e;
             Expr::Binary(b) if matches!(b.op, BinOp::AddAssign(_)) => {
@@ -954,23 +1842,103 @@ impl Cx {
                 self.match_tail(m, &mut k2)
             }
             Expr::ForLoop(fl) => {
-                // for x in e { body }  over a list: monadic fold carrying `self`
-                let x = self.pat_name(&fl.pat)?;
-                let coll = self.val(&fl.expr)?;
+                // for x in e { body }  over a list: monadic fold carrying the variables the body mutates
+                // `for (i, x) in v.f.iter_mut().enumerate()`: i ranges over the indices, x aliases v.f[i]
+                let mut alias: Option<(String, String)> = None; // (alias name, index variable)
+                let mut coll: Option<String> = None;
+                if let Expr::MethodCall(en) = &*fl.expr {
+                    if en.method == "enumerate" {
+                        if let Expr::MethodCall(im) = &*en.receiver {
+                            if im.method == "iter_mut" {
+                                let (var, f) = self.place_field(&im.receiver).ok_or_else(|| format!("iter_mut() of something that is not a field of a record variable: {}", tokens(&*fl.expr)))?;
+                                let (i, x) = match &*fl.pat {
+                                    Pat::Tuple(t) if t.elems.len() == 2 => (self.pat_name(&t.elems[0])?, self.pat_name(&t.elems[1])?),
+                                    p => return Err(format!("unsupported loop pattern over iter_mut().enumerate(): {}", tokens(p))),
+                                };
+                                let rec = self.rec_of_var(&var)?;
+                                coll = Some(format!("(range_up 0 (llen ({} {})))", self.field_proj(&rec, &f), var));
+                                self.aliases.insert(x.clone(), (var, f, i.clone()));
+                                alias = Some((x, i));
+                            }
+                        }
+                    }
+                }
+                // `for x in it` / `for (i, x) in it.enumerate()` where `it` is a translated iterator record
+                // (its `next` is a translated `&mut self` method): the loop interleaves next() and the body
+                {
+                    let (inner, enumerated) = match &*fl.expr {
+                        Expr::MethodCall(en) if en.method == "enumerate" => (&*en.receiver, true),
+                        other => (other, false),
+                    };
+                    if let Some(rec) = self.rec_of_expr(inner) {
+                        if let Some(next) = self.fns.get(&format!("{}<T>::Iterator::next", rec)).cloned() {
+                            let fuel = ITER_FUEL.iter().find(|(r, _)| *r == rec).map(|(_, f)| f.to_string()).ok_or_else(|| format!("no termination measure known for the iterator {}", rec))?;
+                            let it = self.val(inner)?;
+                            let pat = self.pat_name(&fl.pat)?;
+                            let mut state = self.loop_state(&fl.body);
+                            if state.is_empty() {
+                                state.push("self".to_string());
+                            }
+                            let st_pat = if state.len() == 1 { state[0].clone() } else { format!("'({})", state.join(", ")) };
+                            let st_val = if state.len() == 1 { state[0].clone() } else { format!("({})", state.join(", ")) };
+                            let from = self.binds.len();
+                            let ret = format!("Ok {}", st_val);
+                            let body = self.block(&fl.body.stmts, &mut |_cx, _v| Ok(ret.clone()))?;
+                            let body = self.wrap(from, body);
+                            let f = if enumerated { "for_iter_enum" } else { "for_iter" };
+                            let fuel = fuel.replace("IT", &it);
+                            let st = self.bind(format!("{} {} (fun {} {} =>\n{}) {} {} {}", f, next.coq, st_pat, pat, body, paren(&fuel), it, st_val), "st");
+                            let after = self.block(rest, k)?;
+                            return Ok(format!("let {} := {} in\n{}", st_pat, st, after));
+                        }
+                    }
+                }
+                let x = match &alias { Some((_, i)) => i.clone(), None => self.pat_name(&fl.pat)? };
+                let coll = match coll { Some(c) => c, None => self.val(&fl.expr)? };
+                let mut state = self.loop_state(&fl.body);
+                if state.is_empty() {
+                    state.push("self".to_string());
+                }
+                let st_pat = if state.len() == 1 { state[0].clone() } else { format!("'({})", state.join(", ")) };
+                let st_val = if state.len() == 1 { state[0].clone() } else { format!("({})", state.join(", ")) };
                 let from = self.binds.len();
-                let body = self.block(&fl.body.stmts, &mut |_cx, _v| Ok("Ok self".to_string()))?;
+                let ret = format!("Ok {}", st_val);
+                let body = self.block(&fl.body.stmts, &mut |_cx, _v| Ok(ret.clone()))?;
                 let body = self.wrap(from, body);
-                let st = self.bind(format!("fold_m (fun self {} =>\n{}) {} self", x, body, coll), "st");
+                if let Some((a, _)) = &alias {
+                    self.aliases.remove(a);
+                }
+                let st = self.bind(format!("fold_m (fun {} {} =>\n{}) {} {}", st_pat, x, body, coll, st_val), "st");
                 let after = self.block(rest, k)?;
-                Ok(format!("let self := {} in\n{}", st, after))
+                Ok(format!("let {} := {} in\n{}", st_pat, st, after))
             }
             Expr::Return(r) => {
                 let inner = r.expr.as_ref().ok_or("return without a value")?;
                 self.ret(inner)
             }
+            // `e?;` with the value discarded: only the possible early return matters
+            Expr::Try(_) => {
+                let _ = self.val(e)?;
+                self.block(rest, k)
+            }
             _ => Err(format!("unsupported statement: {}", tokens(e))),
         }
     }
+}
+
+/// `v.resize(n, x)`, `v.truncate(n)`, `v.extend_from_slice(x)`, `v.push(x)` on a plain local / `&mut` parameter
+fn local_mutator(e: &Expr) -> Option<(String, String)> {
+    if let Expr::MethodCall(m) = e {
+        let name = m.method.to_string();
+        if matches!(name.as_str(), "resize" | "truncate" | "extend_from_slice" | "push") {
+            if let Expr::Path(p) = &*m.receiver {
+                if p.path.segments.len() == 1 {
+                    return Some((path_str(&p.path), name));
+                }
+            }
+        }
+    }
+    None
 }
 
 /// `self.f.get_mut(i).ok_or(E)?`  ->  (f, i)
@@ -1058,6 +2026,8 @@ fn coq_type(t: &Type, records: &HashMap<String, Vec<String>>) -> R<String> {
             }
             if records.contains_key(&s) {
                 s
+            } else if records.contains_key(&base_of(&s)) && s.contains('<') {
+                base_of(&s)
             } else if s.starts_with("[u8;") {
                 "bytes".into()
             } else {
@@ -1077,7 +2047,8 @@ fn main() {
         if !files.contains_key(f) {
             let src = std::fs::read_to_string(format!("{}/{}", repo, f)).unwrap_or_default();
             match syn::parse_file(&src) {
-                Ok(p) => {
+                Ok(mut p) => {
+                    expand_simple_macros(&mut p);
                     files.insert(f.to_string(), p);
                 }
                 Err(e) => {
@@ -1158,26 +2129,60 @@ fn main() {
         out.push('\n');
     }
 
-    // which targets return Result (so that calls to them are computations)
+    let rec_field_recs: Vec<(String, Vec<(String, String)>)> = rec_types.iter().map(|(n, fs)| (n.clone(), fs.iter().filter(|(_, t)| records.contains_key(t)).cloned().collect())).collect();
+
+    // the targets: signatures first (so that calls between them resolve), then bodies
     let mut res_fns: HashMap<String, String> = HashMap::new();
-    let mut found: Vec<(&Target, syn::Signature, Block)> = vec![];
+    let mut fns: HashMap<String, FnInfo> = HashMap::new();
+    struct Found<'a> { t: &'a Target, sig: syn::Signature, block: Block, imp_key: String, tparams: Vec<String>, n_impl: usize, dict_params: Vec<String> }
+    let mut found: Vec<Found> = vec![];
+    let mut impl_bounds: HashMap<String, Vec<(String, String)>> = HashMap::new();
     let mut mut_methods: Vec<String> = vec![];
+    let numeric = |g: &syn::Generics| -> Vec<String> {
+        let mut v: Vec<String> = g.type_params().filter(|tp| tp.bounds.to_token_stream().to_string().contains("Unsigned")).map(|tp| tp.ident.to_string()).collect();
+        // `const N: usize`
+        v.extend(g.const_params().map(|cp| cp.ident.to_string()));
+        v
+    };
+    // type parameters bounded by Decode / Encode (in the parameter list or the where clause)
+    let dicts = |g: &syn::Generics| -> Vec<String> {
+        let mut v: Vec<String> = g.type_params().filter(|tp| { let b = tp.bounds.to_token_stream().to_string(); b.contains("Decode") || b.contains("Encode") || b.contains("TryFromIter") }).map(|tp| tp.ident.to_string()).collect();
+        if let Some(w) = &g.where_clause {
+            for pr in &w.predicates {
+                if let syn::WherePredicate::Type(pt) = pr {
+                    let b = pt.bounds.to_token_stream().to_string();
+                    let t = norm_type(&pt.bounded_ty);
+                    if (b.contains("Decode") || b.contains("Encode")) && !v.contains(&t) {
+                        v.push(t);
+                    }
+                }
+            }
+        }
+        v
+    };
     for t in TARGETS {
         let mut hit = None;
         if let Some(f) = files.get(t.file) {
             for it in &f.items {
                 match it {
-                    Item::Fn(func) if t.imp.is_empty() && func.sig.ident == t.name => hit = Some((func.sig.clone(), (*func.block).clone())),
-                    Item::Impl(imp) if !t.imp.is_empty() && imp.trait_.is_none() => {
-                        let self_ty = match &*imp.self_ty {
+                    Item::Fn(func) if t.imp.is_empty() && func.sig.ident == t.name => hit = Some((func.sig.clone(), (*func.block).clone(), String::new(), vec![], vec![])),
+                    Item::Impl(imp) if !t.imp.is_empty() => {
+                        let tr = imp.trait_.as_ref().map(|(_, p, _)| path_last(p)).unwrap_or_default();
+                        if tr != t.tr {
+                            continue;
+                        }
+                        let full = norm_type(&imp.self_ty);
+                        let last = match &*imp.self_ty {
                             Type::Path(p) => path_last(&p.path),
                             _ => String::new(),
                         };
-                        if self_ty == t.imp {
+                        let matches_imp = if t.imp.contains('<') || t.imp.contains('[') { full == t.imp } else { last == t.imp };
+                        if matches_imp {
                             for ii in &imp.items {
                                 if let ImplItem::Fn(m) = ii {
                                     if m.sig.ident == t.name {
-                                        hit = Some((m.sig.clone(), m.block.clone()));
+                                        impl_bounds.insert(t.imp.to_string(), imp.generics.type_params().map(|tp| (tp.ident.to_string(), tp.bounds.to_token_stream().to_string().replace(' ', ""))).collect());
+                                        hit = Some((m.sig.clone(), m.block.clone(), t.imp.to_string(), numeric(&imp.generics), dicts(&imp.generics)));
                                     }
                                 }
                             }
@@ -1188,18 +2193,34 @@ fn main() {
             }
         }
         match hit {
-            Some((sig, block)) => {
-                let ret = match &sig.output { ReturnType::Type(_, t) => tokens(&**t), ReturnType::Default => "()".into() };
-                let key = if t.imp.is_empty() { t.name.to_string() } else { format!("{}::{}", t.imp, t.name) };
-                let _ = ret;
-                if sig.inputs.iter().any(|a| matches!(a, FnArg::Receiver(r) if r.mutability.is_some())) {
+            Some((sig, block, imp_key, impl_nums, impl_dicts)) => {
+                let ret = match &sig.output { ReturnType::Type(_, t) => tokens(&**t).replace(' ', ""), ReturnType::Default => "()".into() };
+                let key = if t.imp.is_empty() { t.name.to_string() } else if t.tr.is_empty() { format!("{}::{}", t.imp, t.name) } else { format!("{}::{}::{}", t.imp, t.tr, t.name) };
+                let is_mut = sig.inputs.iter().any(|a| matches!(a, FnArg::Receiver(r) if r.mutability.is_some()));
+                if is_mut {
                     mut_methods.push(key.clone());
                 }
                 res_fns.insert(key.clone(), t.coq.to_string());
-                if !res_fns.contains_key(t.name) {
+                if !res_fns.contains_key(t.name) && t.imp.is_empty() {
                     res_fns.insert(t.name.to_string(), t.coq.to_string());
                 }
-                found.push((t, sig, block));
+                // legacy spelling used by `bind (..) UnionSelector::new`-style paths
+                if !t.imp.is_empty() && !t.imp.contains('<') && t.tr.is_empty() {
+                    res_fns.insert(format!("{}::{}", t.imp, t.name), t.coq.to_string());
+                }
+                let mut tparams = impl_nums.clone();
+                let n_impl = tparams.len();
+                tparams.extend(numeric(&sig.generics));
+                let base = base_of(&imp_key);
+                let ret_rec = if ret.contains("Self") && records.contains_key(&base) {
+                    Some(base.clone())
+                } else {
+                    records.keys().find(|r| ret == **r || ret.starts_with(&format!("{}<", r)) || ret.contains(&format!("<{}<", r)) || ret.contains(&format!("<{},", r))).cloned()
+                };
+                fns.insert(key.clone(), FnInfo { coq: t.coq.to_string(), tparams: tparams.clone(), n_impl, mut_self: is_mut, ret_rec, imp: imp_key.clone() });
+                let mut dict_params = impl_dicts.clone();
+                dict_params.extend(dicts(&sig.generics));
+                found.push(Found { t, sig, block, imp_key, tparams, n_impl, dict_params });
             }
             None => {
                 let _ = writeln!(out, "(* rs2v: UNTRANSLATABLE {} {}::{}: item not found *)\n", t.file, t.imp, t.name);
@@ -1207,22 +2228,49 @@ fn main() {
         }
     }
 
-    for (t, sig, block) in &found {
+    let mut defs: Vec<(String, String, String)> = vec![];
+    let mut dict_sigs: HashMap<String, Vec<String>> = HashMap::new();
+    for Found { t, sig, block, imp_key, tparams, n_impl, dict_params } in &found {
+        let _ = n_impl;
         let mut cx = Cx::new(records.clone(), res_fns.clone());
         cx.mut_methods = mut_methods.clone();
-        let mut params: Vec<String> = vec![];
+        cx.fns = fns.clone();
+        cx.cur_imp = imp_key.clone();
+        cx.tparams = tparams.clone();
+        cx.dict_params = dict_params.clone();
+        cx.dict_sigs = dict_sigs.clone();
+        for tp in sig.generics.type_params() {
+            cx.dict_bounds.insert(tp.ident.to_string(), tp.bounds.to_token_stream().to_string().replace(' ', ""));
+        }
+        for (n, b) in impl_bounds.get(imp_key.as_str()).cloned().unwrap_or_default() {
+            cx.dict_bounds.insert(n, b);
+        }
+        for (rn, fs) in &rec_types {
+            for (f, t) in fs {
+                cx.field_types.insert(format!("{}.{}", rn, f), t.clone());
+            }
+        }
+        // fields that hold a record themselves (`BitIter.bitfield`)
+        for (owner, fs) in &rec_field_recs {
+            for (f, r) in fs {
+                cx.var_rec.insert(format!("{}.{}", owner, f), r.clone());
+            }
+        }
+        let mut params: Vec<String> = tparams.iter().map(|n| format!("(t{} : N)", n)).collect();
         let mut has_self = false;
         let mut mut_self = false;
+        let mut mut_param: Option<String> = None;
         let mut err: Option<String> = None;
-        if !t.imp.is_empty() {
-            cx.self_rec = Some(t.imp.to_string());
+        let base = base_of(imp_key);
+        if !t.imp.is_empty() && records.contains_key(&base) {
+            cx.self_rec = Some(base.clone());
         }
         for a in &sig.inputs {
             match a {
                 FnArg::Receiver(r) => {
                     has_self = true;
                     mut_self = r.mutability.is_some();
-                    params.push(format!("(self : {})", t.imp));
+                    params.push(format!("(self : {})", base));
                 }
                 FnArg::Typed(pt) => {
                     let name = match &*pt.pat { Pat::Ident(i) => coq_ident(&i.ident.to_string()), p => tokens(p) };
@@ -1232,8 +2280,17 @@ fn main() {
                         cx.fn_params.push(name.clone());
                         params.push(format!("({} : bytes -> bytes)", name));
                     } else {
+                        if matches!(&*pt.ty, Type::Reference(r) if r.mutability.is_some()) {
+                            mut_param = Some(name.clone());
+                        }
                         match coq_type(&pt.ty, &records) {
-                            Ok(ct) => params.push(format!("({} : {})", name, if ct == "SELF" { t.imp.to_string() } else { ct })),
+                            Ok(ct) => {
+                                let ct = if ct == "SELF" { base.clone() } else { ct };
+                                if records.contains_key(&ct) {
+                                    cx.var_rec.insert(name.clone(), ct.clone());
+                                }
+                                params.push(format!("({} : {})", name, ct))
+                            }
                             Err(e) => err = Some(e),
                         }
                     }
@@ -1241,32 +2298,229 @@ fn main() {
             }
         }
         let ret = match &sig.output { ReturnType::Type(_, t) => tokens(&**t), ReturnType::Default => "()".into() };
-        let returns_result = ret.starts_with("Result");
-        let body = if let Some(e) = err { Err(e) } else if mut_self {
+        cx.ret_option = ret.starts_with("Option");
+        let ret_n = ret.replace(' ', "");
+        let valued = mut_self && ret_n != "()" && !ret_n.starts_with("Result<(),") && !ret_n.starts_with('&');
+        if valued {
+            cx.ret_none = "Ok (None, self)".to_string();
+        }
+        let body = if let Some(e) = err { Err(e) } else if valued {
+            // a `&mut self` method that also returns a value: the pair (value, final state)
+            cx.block(&block.stmts, &mut |_cx, v| Ok(format!("Ok ({}, self)", v)))
+        } else if mut_self {
             // state-passing: the value of the block is discarded, the final state is returned
             cx.block(&block.stmts, &mut |_cx, _v| Ok("Ok self".to_string())).map(|b| fix_mut_self_tail(&b))
-        } else if returns_result {
-            cx.block(&block.stmts, &mut |_cx, v| Ok(format!("Ok {}", paren(&v))))
+        } else if let Some(mp) = &mut_param {
+            // a `&mut` parameter: the function returns its final value
+            let r = format!("Ok {}", mp);
+            cx.block(&block.stmts, &mut |_cx, _v| Ok(r.clone()))
         } else {
             cx.block(&block.stmts, &mut |_cx, v| Ok(format!("Ok {}", paren(&v))))
         };
         let _ = has_self;
-        let src_name = if t.imp.is_empty() { t.name.to_string() } else { format!("{}::{}", t.imp, t.name) };
+        let src_name = if t.imp.is_empty() { t.name.to_string() } else if t.tr.is_empty() { format!("{}::{}", display_imp(t.imp), t.name) } else { format!("<{} as {}>::{}", t.imp, t.tr, t.name) };
+        let mut text = String::new();
         match body {
             Ok(b) => {
-                let _ = writeln!(out, "(* {} :: {} *)", t.file, src_name);
+                let _ = writeln!(text, "(* {} :: {} *)", t.file, src_name);
                 for n in &cx.notes {
-                    let _ = writeln!(out, "(* note: {} *)", n.replace('"', "'").replace("*)", "* )").replace("(*", "( *"));
+                    let _ = writeln!(text, "(* note: {} *)", n.replace('"', "'").replace("*)", "* )").replace("(*", "( *"));
                 }
-                let _ = writeln!(out, "Definition {} {} :=\n{}.\n", t.coq, params.join(" "), indent(&b));
+                // dictionary members the body uses, in a fixed order, right after the type-level numbers
+                let mut dparams: Vec<String> = vec![];
+                let mut sig_members: Vec<String> = vec![];
+                for d in dict_params {
+                    let used: Vec<&String> = cx.dict_used.iter().filter(|(t, _)| t == d).map(|(_, m)| m).collect();
+                    if used.is_empty() {
+                        continue;
+                    }
+                    if used.iter().any(|u| *u == "from_ssz_bytes" || *u == "try_from_iter") {
+                        dparams.push(format!("{{A_{} : Type}}", d));
+                    }
+                    for m in ["is_ssz_fixed_len", "ssz_fixed_len", "from_ssz_bytes", "try_from_iter"] {
+                        if used.iter().any(|u| *u == m) {
+                            sig_members.push(format!("{}_{}", d, m));
+                            dparams.push(match m {
+                                "is_ssz_fixed_len" => format!("({}_{} : bool)", d, m),
+                                "ssz_fixed_len" => format!("({}_{} : N)", d, m),
+                                "try_from_iter" => {
+                                    // `Container: TryFromIter<T>`: the item type is the bound's argument
+                                    let b = cx.dict_bounds.get(d).cloned().unwrap_or_default();
+                                    let item = b.split("TryFromIter<").nth(1).and_then(|x| x.split('>').next()).unwrap_or("T").to_string();
+                                    format!("({}_{} : list A_{} -> outcome A_{})", d, m, item, d)
+                                }
+                                _ => format!("({}_{} : bytes -> outcome A_{})", d, m, d),
+                            });
+                        }
+                    }
+                }
+                dict_sigs.insert(t.coq.to_string(), sig_members.clone());
+                let n_t = tparams.len();
+                let mut all_params: Vec<String> = params[..n_t].to_vec();
+                all_params.extend(dparams);
+                all_params.extend(params[n_t..].iter().cloned());
+                let _ = writeln!(text, "Definition {} {} :=\n{}.\n", t.coq, all_params.join(" "), indent(&b));
+                defs.push((t.coq.to_string(), text, b));
             }
             Err(e) => {
-                let _ = writeln!(out, "(* rs2v: UNTRANSLATABLE {} :: {}: {} *)\n", t.file, src_name, e.replace('"', "'").replace("*)", "* )").replace("(*", "( *"));
+                let _ = writeln!(text, "(* rs2v: UNTRANSLATABLE {} :: {}: {} *)\n", t.file, src_name, e.replace('"', "'").replace("*)", "* )").replace("(*", "( *"));
+                defs.push((t.coq.to_string(), text, String::new()));
             }
         }
     }
+    // emit in dependency order (Coq needs definitions before uses); otherwise in the order of TARGETS
+    let names: Vec<String> = defs.iter().map(|d| d.0.clone()).collect();
+    let uses = |body: &str, name: &str| -> bool {
+        let mut from = 0;
+        while let Some(i) = body[from..].find(name) {
+            let a = from + i;
+            let b = a + name.len();
+            let pre = body[..a].chars().last().map(|c| c.is_alphanumeric() || c == '_').unwrap_or(false);
+            let post = body[b..].chars().next().map(|c| c.is_alphanumeric() || c == '_').unwrap_or(false);
+            if !pre && !post {
+                return true;
+            }
+            from = b;
+        }
+        false
+    };
+    let mut done: Vec<bool> = vec![false; defs.len()];
+    fn emit(i: usize, defs: &Vec<(String, String, String)>, names: &Vec<String>, done: &mut Vec<bool>, out: &mut String, uses: &dyn Fn(&str, &str) -> bool, depth: usize) {
+        if done[i] || depth > 64 {
+            return;
+        }
+        done[i] = true;
+        for (j, n) in names.iter().enumerate() {
+            if j != i && !done[j] && uses(&defs[i].2, n) {
+                emit(j, defs, names, done, out, uses, depth + 1);
+            }
+        }
+        out.push_str(&defs[i].1);
+    }
+    for i in 0..defs.len() {
+        emit(i, &defs, &names, &mut done, &mut out, &uses, 0);
+    }
     out.push_str("End Gen.\n");
     print!("{}", out);
+}
+
+/// `macro_rules! m { ($a: kind, $b: kind) => { items } }` with a single rule and no repetitions, invoked at
+/// item level as `m!(x, y);`: the invocation is replaced by the items with `$a`, `$b` substituted (what
+/// rustc's expander does for such a macro).  Other macros are left alone (their invocations are not items
+/// the translator can see).
+fn expand_simple_macros(file: &mut syn::File) {
+    use proc_macro2::{Delimiter, Group, TokenStream, TokenTree};
+    struct Def { params: Vec<String>, body: TokenStream }
+    let mut defs: HashMap<String, Def> = HashMap::new();
+    for it in &file.items {
+        if let Item::Macro(m) = it {
+            if path_last(&m.mac.path) == "macro_rules" {
+                if let Some(name) = &m.ident {
+                    let toks: Vec<TokenTree> = m.mac.tokens.clone().into_iter().collect();
+                    // ( matcher ) => { transcriber } [;]
+                    if toks.len() >= 4 {
+                        if let (TokenTree::Group(g1), TokenTree::Group(g2)) = (&toks[0], &toks[3]) {
+                            let rest_ok = toks.len() == 4 || (toks.len() == 5 && matches!(&toks[4], TokenTree::Punct(p) if p.as_char() == ';'));
+                            let ms = g1.stream().to_string();
+                            if rest_ok && !ms.contains("$ (") && !ms.contains("$(") {
+                                let mut params = vec![];
+                                let mt: Vec<TokenTree> = g1.stream().into_iter().collect();
+                                let mut i = 0;
+                                while i + 1 < mt.len() {
+                                    if let (TokenTree::Punct(p), TokenTree::Ident(id)) = (&mt[i], &mt[i + 1]) {
+                                        if p.as_char() == '$' {
+                                            params.push(id.to_string());
+                                        }
+                                    }
+                                    i += 1;
+                                }
+                                defs.insert(name.to_string(), Def { params, body: g2.stream() });
+                            }
+                        }
+                    }
+                }
+            }
+        }
+    }
+    fn subst(ts: TokenStream, map: &HashMap<String, TokenStream>) -> TokenStream {
+        let toks: Vec<TokenTree> = ts.into_iter().collect();
+        let mut out: Vec<TokenTree> = vec![];
+        let mut i = 0;
+        while i < toks.len() {
+            match &toks[i] {
+                TokenTree::Punct(p) if p.as_char() == '$' && i + 1 < toks.len() => {
+                    if let TokenTree::Ident(id) = &toks[i + 1] {
+                        if let Some(rep) = map.get(&id.to_string()) {
+                            // an `expr` argument is substituted as a parenthesis-free group, like rustc does
+                            out.push(TokenTree::Group(Group::new(Delimiter::None, rep.clone())));
+                            i += 2;
+                            continue;
+                        }
+                    }
+                    out.push(toks[i].clone());
+                    i += 1;
+                }
+                TokenTree::Group(g) => {
+                    let mut ng = Group::new(g.delimiter(), subst(g.stream(), map));
+                    ng.set_span(g.span());
+                    out.push(TokenTree::Group(ng));
+                    i += 1;
+                }
+                t => {
+                    out.push(t.clone());
+                    i += 1;
+                }
+            }
+        }
+        out.into_iter().collect()
+    }
+    let mut new_items: Vec<Item> = vec![];
+    for it in &file.items {
+        if let Item::Macro(m) = it {
+            let name = path_last(&m.mac.path);
+            if let Some(def) = defs.get(&name) {
+                // split the arguments at top-level commas
+                let mut args: Vec<TokenStream> = vec![];
+                let mut cur: Vec<TokenTree> = vec![];
+                for t in m.mac.tokens.clone() {
+                    match &t {
+                        TokenTree::Punct(p) if p.as_char() == ',' => {
+                            args.push(cur.drain(..).collect());
+                        }
+                        _ => cur.push(t),
+                    }
+                }
+                if !cur.is_empty() {
+                    args.push(cur.into_iter().collect());
+                }
+                if args.len() == def.params.len() {
+                    let map: HashMap<String, TokenStream> = def.params.iter().cloned().zip(args.into_iter()).collect();
+                    let expanded = subst(def.body.clone(), &map);
+                    // None-delimited groups print as their contents
+                    if let Ok(f) = syn::parse_str::<syn::File>(&expanded.to_string()) {
+                        new_items.extend(f.items);
+                    }
+                }
+            }
+        }
+    }
+    file.items.extend(new_items);
+}
+
+/// impl self type with spaces and lifetimes removed: "SszDecoderBuilder", "Bitfield<Variable<N>>"
+fn norm_type(t: &Type) -> String {
+    let s = tokens_full(t).replace(' ', "");
+    let s = s.replace("<'a>", "").replace("<'_>", "").replace("'a,", "").replace("'_,", "");
+    s
+}
+
+fn tokens_full<T: quote::ToTokens>(t: &T) -> String {
+    t.to_token_stream().to_string()
+}
+
+/// the generic impl was listed as plain "Bitfield" before the impls were told apart: keep that spelling in comments
+fn display_imp(imp: &str) -> String {
+    if imp == "Bitfield<T>" { "Bitfield".to_string() } else { imp.to_string() }
 }
 
 /// In a `&mut self` method returning `Result<(), E>`, a tail `Ok(())` means "return the state".
